@@ -325,7 +325,7 @@ Proof.
                              [if flipn (length dsw) (negb (ty =? 1)%N) then (0, snd (last (walk (0, 0) dsw) (0, 0)))
                               else (fst (last (walk (0, 0) dsw) (0, 0)), 0)]
                         else walk (0, 0) dsw, k)).
-      { rewrite rd_count_ints by (rewrite ?alt_vals_length; [exact Hn|apply alt_vals_fits; exact Hfw]).
+      { rewrite rd_count_ints; [|rewrite alt_vals_length; exact Hn|apply alt_vals_fits; exact Hfw].
         cbn [obnd]. rewrite Hf0. rewrite manh_accum_alt by exact Ha. reflexivity. }
       destruct H01 as [-> | ->]; exact E. }
     assert (Hsel : (match ty with 0%N | 1%N =>
@@ -340,60 +340,78 @@ Proof.
                     | _ => None end) = Some bs).
     { destruct H01 as [-> | ->]; exact Hspec. }
     clear Hspec. assert (Hty01 : match ty with 0%N | 1%N => True | _ => False end) by (destruct H01 as [-> | ->]; exact I).
-    destruct ty as [|[[|]| |]]; try contradiction.
+    destruct ty as [|[p|p|]]; try contradiction.
     + (* type 0 *)
+      change (0 =? 1)%N with false in *.
       destruct closed.
       * destruct ds as [|d0 dt] eqn:Eds; [discriminate|]. rewrite <- Eds in *.
-        destruct (alt_b (0 =? 1)%N (ds ++ [closing_delta p0 t])) eqn:Ealt; [|discriminate].
+        destruct (alt_b false (ds ++ [closing_delta p0 t])) eqn:Ealt; [|discriminate].
         injection Hsel as <-.
         assert (Hne : ds <> []) by (rewrite Eds; discriminate).
         pose proof (removelast_length ds Hne) as Hrl.
         rewrite (app_removelast_last (0, 0) Hne) in Ealt. rewrite <- app_assoc in Ealt. rewrite alt_b_app in Ealt.
         apply andb_true_iff in Ealt. destruct Ealt as [Ea1 Ea2].
         rewrite (Hdec (removelast ds) (N.of_nat (Nat.pred (length ds))) rest Ea1).
-        -- f_equal. f_equal. rewrite <- Hwalk. rewrite (app_removelast_last (0, 0) Hne) at 3. rewrite walk_app. f_equal.
-           cbn [walk]. f_equal.
-           set (lp := last (walk (0, 0) (removelast ds)) (0, 0)).
+        -- set (lp := last (walk (0, 0) (removelast ds)) (0, 0)).
            set (dn := last ds (0, 0)) in *.
+           assert (Hds : walk (0, 0) ds = walk (0, 0) (removelast ds) ++ [(fst lp + fst dn, snd lp + snd dn)]).
+           { transitivity (walk (0, 0) (removelast ds ++ [dn])).
+             - f_equal. apply (app_removelast_last (0, 0) Hne).
+             - rewrite walk_app. reflexivity. }
+           f_equal. f_equal. rewrite <- Hwalk, Hds. f_equal. f_equal.
            cbn [app alt_b] in Ea2. rewrite andb_true_r in Ea2. apply andb_true_iff in Ea2. destruct Ea2 as [E1 E2].
            assert (Hlastrel : (fst lp + fst dn, snd lp + snd dn) = (fst (last t p0) - fst p0, snd (last t p0) - snd p0)).
-           { rewrite <- last_rel. rewrite <- Hwalk. rewrite (app_removelast_last (0, 0) Hne) at 2. rewrite walk_app.
-             cbn [walk]. rewrite last_last. reflexivity. }
+           { transitivity (last (walk (0, 0) ds) (0, 0)).
+             - rewrite Hds. rewrite last_last. reflexivity.
+             - rewrite Hwalk. apply last_rel. }
            unfold closing_delta in E2. cbn [fst snd] in E2.
-           rewrite flipn_negb. destruct (flipn (length (removelast ds)) (0 =? 1)%N); cbn [negb] in *.
-           ++ apply Z.eqb_eq in E1, E2. injection Hlastrel as H1 H2. f_equal; lia.
-           ++ apply Z.eqb_eq in E1, E2. injection Hlastrel as H1 H2. f_equal; lia.
+           rewrite flipn_negb. destruct (flipn (length (removelast ds)) false); cbn [negb] in *.
+           ++ apply Z.eqb_eq in E1, E2. injection Hlastrel as H1 H2.
+              assert (Ep : (fst lp, 0%Z) = ((fst lp + fst dn)%Z, (snd lp + snd dn)%Z)) by (f_equal; lia).
+              rewrite Ep. reflexivity.
+           ++ apply Z.eqb_eq in E1, E2. injection Hlastrel as H1 H2.
+              assert (Ep : (0%Z, snd lp) = ((fst lp + fst dn)%Z, (snd lp + snd dn)%Z)) by (f_equal; lia).
+              rewrite Ep. reflexivity.
         -- rewrite (app_removelast_last (0, 0) Hne) in Hfit. apply Forall_app in Hfit. apply Hfit.
         -- rewrite Hrl. reflexivity.
         -- unfold wf_u in *. lia.
-      * destruct (alt_b (0 =? 1)%N ds) eqn:Ealt; [|discriminate]. injection Hsel as <-.
+      * destruct (alt_b false ds) eqn:Ealt; [|discriminate]. injection Hsel as <-.
         rewrite (Hdec ds (N.of_nat (length ds)) rest Ealt Hfit eq_refl Hwn). rewrite Hwalk. reflexivity.
     + (* type 1 *)
+      change (1 =? 1)%N with true in *.
       destruct closed.
       * destruct ds as [|d0 dt] eqn:Eds; [discriminate|]. rewrite <- Eds in *.
-        destruct (alt_b (1 =? 1)%N (ds ++ [closing_delta p0 t])) eqn:Ealt; [|discriminate].
+        destruct (alt_b true (ds ++ [closing_delta p0 t])) eqn:Ealt; [|discriminate].
         injection Hsel as <-.
         assert (Hne : ds <> []) by (rewrite Eds; discriminate).
         pose proof (removelast_length ds Hne) as Hrl.
         rewrite (app_removelast_last (0, 0) Hne) in Ealt. rewrite <- app_assoc in Ealt. rewrite alt_b_app in Ealt.
         apply andb_true_iff in Ealt. destruct Ealt as [Ea1 Ea2].
         rewrite (Hdec (removelast ds) (N.of_nat (Nat.pred (length ds))) rest Ea1).
-        -- f_equal. f_equal. rewrite <- Hwalk. rewrite (app_removelast_last (0, 0) Hne) at 3. rewrite walk_app. f_equal.
-           cbn [walk]. f_equal.
-           set (lp := last (walk (0, 0) (removelast ds)) (0, 0)).
+        -- set (lp := last (walk (0, 0) (removelast ds)) (0, 0)).
            set (dn := last ds (0, 0)) in *.
+           assert (Hds : walk (0, 0) ds = walk (0, 0) (removelast ds) ++ [(fst lp + fst dn, snd lp + snd dn)]).
+           { transitivity (walk (0, 0) (removelast ds ++ [dn])).
+             - f_equal. apply (app_removelast_last (0, 0) Hne).
+             - rewrite walk_app. reflexivity. }
+           f_equal. f_equal. rewrite <- Hwalk, Hds. f_equal. f_equal.
            cbn [app alt_b] in Ea2. rewrite andb_true_r in Ea2. apply andb_true_iff in Ea2. destruct Ea2 as [E1 E2].
            assert (Hlastrel : (fst lp + fst dn, snd lp + snd dn) = (fst (last t p0) - fst p0, snd (last t p0) - snd p0)).
-           { rewrite <- last_rel. rewrite <- Hwalk. rewrite (app_removelast_last (0, 0) Hne) at 2. rewrite walk_app.
-             cbn [walk]. rewrite last_last. reflexivity. }
+           { transitivity (last (walk (0, 0) ds) (0, 0)).
+             - rewrite Hds. rewrite last_last. reflexivity.
+             - rewrite Hwalk. apply last_rel. }
            unfold closing_delta in E2. cbn [fst snd] in E2.
-           rewrite flipn_negb. destruct (flipn (length (removelast ds)) (1 =? 1)%N); cbn [negb] in *.
-           ++ apply Z.eqb_eq in E1, E2. injection Hlastrel as H1 H2. f_equal; lia.
-           ++ apply Z.eqb_eq in E1, E2. injection Hlastrel as H1 H2. f_equal; lia.
+           rewrite flipn_negb. destruct (flipn (length (removelast ds)) true); cbn [negb] in *.
+           ++ apply Z.eqb_eq in E1, E2. injection Hlastrel as H1 H2.
+              assert (Ep : (fst lp, 0%Z) = ((fst lp + fst dn)%Z, (snd lp + snd dn)%Z)) by (f_equal; lia).
+              rewrite Ep. reflexivity.
+           ++ apply Z.eqb_eq in E1, E2. injection Hlastrel as H1 H2.
+              assert (Ep : (0%Z, snd lp) = ((fst lp + fst dn)%Z, (snd lp + snd dn)%Z)) by (f_equal; lia).
+              rewrite Ep. reflexivity.
         -- rewrite (app_removelast_last (0, 0) Hne) in Hfit. apply Forall_app in Hfit. apply Hfit.
         -- rewrite Hrl. reflexivity.
         -- unfold wf_u in *. lia.
-      * destruct (alt_b (1 =? 1)%N ds) eqn:Ealt; [|discriminate]. injection Hsel as <-.
+      * destruct (alt_b true ds) eqn:Ealt; [|discriminate]. injection Hsel as <-.
         rewrite (Hdec ds (N.of_nat (length ds)) rest Ealt Hfit eq_refl Hwn). rewrite Hwalk. reflexivity.
   - (* Manhattan 2-deltas *)
     destruct (forallb manh_b ds) eqn:Hm; [|discriminate]. injection Hspec as <-. rewrite forallb_forall in Hm.
@@ -431,3 +449,1601 @@ Proof.
   apply (rd_plist_spec_enc ty closed p0 t _ rest Hty Hspec Hfit Hlen).
 Qed.
 Local Close Scope Z_scope.
+
+(* ================================================================== PROPERTY records *)
+(* the record properties_to_oas writes is a function of what it denotes *)
+Definition enc_pval_g (v : pval) : list N :=
+  match v with
+  | PV_real r => wr_real r
+  | PV_uint n => 8 :: enc_uint n
+  | PV_int z => 9 :: enc_int z
+  | PV_str k s => k :: wr_string s          (* never produced by the writer *)
+  | PV_ref k n => k :: enc_uint n
+  end.
+Definition enc_prop_g (p : prop) : list N :=
+  let value_count := N.of_nat (length (p_vals p)) in
+  28 :: (6 + (if p_std p then 1 else 0) + (if 14 <? value_count then 240 else 16 * value_count)) ::
+  wr_nref (p_name p) ++ (if 14 <? value_count then enc_uint value_count else []) ++ flat_map enc_pval_g (p_vals p).
+
+Lemma value_to_oas_enc pv v :
+  fst (fst (value_to_oas pv v)) = enc_pval_g (snd (fst (value_to_oas pv v))).
+Proof. destruct v; cbn [value_to_oas fst snd enc_pval_g]; [reflexivity|reflexivity|apply enc_real_view|reflexivity]. Qed.
+Lemma values_to_oas_enc vs : forall pv,
+  fst (fst (values_to_oas pv vs)) = flat_map enc_pval_g (snd (fst (values_to_oas pv vs))) /\
+  length (snd (fst (values_to_oas pv vs))) = length vs.
+Proof.
+  induction vs as [|v t IH]; intros pv; [split; reflexivity|].
+  cbn [values_to_oas]. pose proof (value_to_oas_enc pv v) as E1.
+  destruct (value_to_oas pv v) as [[b1 d1] pv1]. destruct (IH pv1) as [E2 L2].
+  destruct (values_to_oas pv1 t) as [[b2 d2] pv2]. cbn [fst snd] in *. cbn [flat_map length]. rewrite E1, E2, L2. split; reflexivity.
+Qed.
+Lemma property_to_oas_enc st p :
+  fst (fst (property_to_oas st p)) = enc_prop_g (snd (fst (property_to_oas st p))).
+Proof.
+  unfold property_to_oas. destruct (intern (ps_names st) (fst p)) as [index nm].
+  destruct (values_to_oas_enc (snd p) (ps_vals st)) as [E L].
+  destruct (values_to_oas (ps_vals st) (snd p)) as [[vb vd] pv]. cbn [fst snd] in *.
+  unfold enc_prop_g. cbn [p_vals p_std p_name wr_nref]. rewrite L, E. reflexivity.
+Qed.
+Lemma properties_to_oas_enc ps : forall st,
+  fst (fst (properties_to_oas st ps)) = map enc_prop_g (snd (fst (properties_to_oas st ps))).
+Proof.
+  induction ps as [|p t IH]; intros st; [reflexivity|].
+  cbn [properties_to_oas]. pose proof (property_to_oas_enc st p) as E1.
+  destruct (property_to_oas st p) as [[r1 d1] st1]. specialize (IH st1).
+  destruct (properties_to_oas st1 t) as [[r2 d2] st2]. cbn [fst snd map] in *. rewrite E1, IH. reflexivity.
+Qed.
+
+(* well-formed numbered properties *)
+Definition wf_pval (v : pval) : Prop :=
+  match v with
+  | PV_real r => wf_real r
+  | PV_uint n => wf_u n
+  | PV_int z => fits63 z
+  | PV_str _ _ => False
+  | PV_ref k n => (k = 13 \/ k = 14 \/ k = 15) /\ wf_u n
+  end.
+Definition wf_nprop (p : prop) : Prop :=
+  (exists i, p_name p = NNum i /\ wf_u i) /\ wf_u (N.of_nat (length (p_vals p))) /\ Forall wf_pval (p_vals p).
+
+Lemma enc_pval_g_nonempty v : enc_pval_g v <> [].
+Proof. destruct v as [r| | | |]; cbn [enc_pval_g]; try discriminate. destruct r as [[|] ?|[|] ?|[|] ? ?|?|?]; discriminate. Qed.
+
+Lemma rd_pval_enc v rest : wf_pval v -> rd_pval (enc_pval_g v ++ rest) = Some (v, rest).
+Proof.
+  intros H. unfold rd_pval. destruct v as [r|n|z|k s|k n]; cbn [enc_pval_g wf_pval] in *.
+  - destruct r as [s n|s n|s a b|b|b]; cbn [wr_real app wf_real] in *.
+    + destruct s; rewrite rd_uint_small by lia; cbn [obnd N.ltb N.compare Pos.compare Pos.compare_cont rd_real_by];
+        rewrite rd_uint_enc by exact H; reflexivity.
+    + destruct s; rewrite rd_uint_small by lia; cbn [obnd N.ltb N.compare Pos.compare Pos.compare_cont rd_real_by];
+        rewrite rd_uint_enc by exact H; reflexivity.
+    + destruct H as [Ha Hb]. destruct s; rewrite rd_uint_small by lia;
+        cbn [obnd N.ltb N.compare Pos.compare Pos.compare_cont rd_real_by]; rewrite <- app_assoc;
+        rewrite rd_uint_enc by exact Ha; cbn [obnd]; rewrite rd_uint_enc by exact Hb; reflexivity.
+    + rewrite rd_uint_small by lia. cbn [obnd N.ltb N.compare Pos.compare Pos.compare_cont rd_real_by].
+      rewrite <- H. rewrite take_n_app. reflexivity.
+    + rewrite rd_uint_small by lia. cbn [obnd N.ltb N.compare Pos.compare Pos.compare_cont rd_real_by].
+      rewrite <- H. rewrite take_n_app. reflexivity.
+  - cbn [app]. rewrite rd_uint_small by lia. cbn [obnd N.ltb N.compare Pos.compare Pos.compare_cont].
+    rewrite rd_uint_enc by exact H. reflexivity.
+  - cbn [app]. rewrite rd_uint_small by lia. cbn [obnd N.ltb N.compare Pos.compare Pos.compare_cont].
+    rewrite rd_int_enc by exact H. reflexivity.
+  - contradiction.
+  - destruct H as [Hk Hn]. cbn [app].
+    destruct Hk as [-> | [-> | ->]]; rewrite rd_uint_small by lia; cbn [obnd N.ltb N.compare Pos.compare Pos.compare_cont];
+      rewrite rd_uint_enc by exact Hn; reflexivity.
+Qed.
+
+Definition pmodal (m : modal) (p : prop) : modal :=
+  mkM (m_abs m) (m_rep m) (m_g m) (m_t m) (m_p m) (Some (p_name p, p_std p)) (Some (p_vals p)).
+
+Lemma info_prop_bits std c : c <= 14 \/ c = 15 ->
+  let info := 6 + (if std : bool then 1 else 0) + 16 * c in
+  bit info 0 = std /\ bit info 1 = true /\ bit info 2 = true /\ bit info 3 = false /\ N.shiftr info 4 = c.
+Proof.
+  intros H. assert (E : c = 0 \/ c = 1 \/ c = 2 \/ c = 3 \/ c = 4 \/ c = 5 \/ c = 6 \/ c = 7 \/ c = 8 \/ c = 9 \/ c = 10 \/
+                        c = 11 \/ c = 12 \/ c = 13 \/ c = 14 \/ c = 15) by lia.
+  destruct std; repeat (destruct E as [-> | E]; [vm_compute; repeat split; reflexivity|]); subst c; vm_compute; repeat split; reflexivity.
+Qed.
+
+Lemma dec_property_enc m p rest : wf_nprop p ->
+  match enc_prop_g p with
+  | code :: body => code = 28 /\ dec_property 28 m (body ++ rest) = Some (p, pmodal m p, rest)
+  | [] => False
+  end.
+Proof.
+  intros ((i & Hn & Hi) & Hc & Hv). unfold enc_prop_g. split; [reflexivity|].
+  destruct p as [nm std vals]. cbn [p_name p_std p_vals] in *. subst nm. cbn [wr_nref].
+  set (c := N.of_nat (length vals)) in *.
+  unfold dec_property. change (28 =? 29) with false. cbv iota.
+  assert (Hvals : forall k, rd_count rd_pval c (flat_map enc_pval_g vals ++ k) = Some (vals, k)).
+  { intros k. apply rd_count_flat_map; [reflexivity| |].
+    - intros a r Ha. apply rd_pval_enc. rewrite Forall_forall in Hv. apply Hv. exact Ha.
+    - intros a _. apply enc_pval_g_nonempty. }
+  destruct (14 <? c) eqn:E14.
+  - apply N.ltb_lt in E14.
+    destruct (info_prop_bits std 15 (or_intror eq_refl)) as (B0 & B1 & B2 & B3 & B4).
+    cbv zeta in B0, B1, B2, B3, B4. change (16 * 15) with 240 in *.
+    cbn [app rd_byte obnd]. rewrite B0, B1, B2, B3, B4. cbn [rd_nref].
+    rewrite <- !app_assoc. rewrite rd_uint_enc by exact Hi. cbn [obnd fst snd].
+    change (0 <? 15) with true. change (15 =? 15) with true. cbv iota.
+    rewrite rd_uint_enc by exact Hc. cbn [obnd]. rewrite Hvals. reflexivity.
+  - apply N.ltb_ge in E14.
+    destruct (info_prop_bits std c (or_introl E14)) as (B0 & B1 & B2 & B3 & B4).
+    cbv zeta in B0, B1, B2, B3, B4.
+    cbn [app rd_byte obnd]. rewrite B0, B1, B2, B3, B4. cbn [rd_nref].
+    rewrite <- !app_assoc. rewrite rd_uint_enc by exact Hi. cbn [obnd fst snd app].
+    replace (c =? 15) with false by (symmetry; apply N.eqb_neq; lia). cbv iota. cbn [obnd].
+    rewrite Hvals. reflexivity.
+Qed.
+
+(* ================================================================== the decoder state without the modal variables *)
+Record core := mkC {
+  k_unit : real; k_lprops : list prop; k_cells : list cell; k_target : ptarget;
+  k_cn : table; k_cnn : N; k_cnp : list (N * prop);
+  k_ts : table; k_tsn : N; k_pn : table; k_pnn : N; k_ps : table; k_psn : N; k_md : N * N * N * N }.
+Definition DS (m : modal) (k : core) : dstate :=
+  mkD m (k_unit k) (k_lprops k) (k_cells k) (k_target k) (k_cn k) (k_cnn k) (k_cnp k)
+      (k_ts k) (k_tsn k) (k_pn k) (k_pnn k) (k_ps k) (k_psn k) (k_md k).
+
+(* a run of records: each is consumed by one iteration of the decoder's loop *)
+Inductive steps (ois : bool) : modal -> core -> list (list N) -> modal -> core -> Prop :=
+| steps_nil m k : steps ois m k [] m k
+| steps_cons m k r m1 k1 rs m2 k2 :
+    r <> [] ->
+    (forall rest, dec_record ois (DS m k) (r ++ rest) = Some (Cont (DS m1 k1) rest)) ->
+    steps ois m1 k1 rs m2 k2 ->
+    steps ois m k (r :: rs) m2 k2.
+
+Lemma steps_app ois m k r1 m1 k1 r2 m2 k2 :
+  steps ois m k r1 m1 k1 -> steps ois m1 k1 r2 m2 k2 -> steps ois m k (r1 ++ r2) m2 k2.
+Proof. induction 1; intros H2; [exact H2|]. cbn [app]. econstructor; eauto. Qed.
+
+Lemma steps_one ois m k r m1 k1 :
+  r <> [] -> (forall rest, dec_record ois (DS m k) (r ++ rest) = Some (Cont (DS m1 k1) rest)) ->
+  steps ois m k [r] m1 k1.
+Proof. intros H1 H2. econstructor; [exact H1|exact H2|constructor]. Qed.
+
+Lemma steps_loop ois m k rs m' k' : steps ois m k rs m' k' -> forall f rest,
+  dec_loop (length rs + f) ois (DS m k) (concat rs ++ rest) = dec_loop f ois (DS m' k') rest.
+Proof.
+  induction 1 as [|m k r m1 k1 rs m2 k2 Hne Hr Hs IH]; intros f rest; [reflexivity|].
+  cbn [length concat Nat.add]. rewrite <- app_assoc. rewrite (dec_loop_step _ ois _ _ _ _ (Hr _)). apply IH.
+Qed.
+Lemma steps_nonempty ois m k rs m' k' : steps ois m k rs m' k' -> Forall (fun r => r <> []) rs.
+Proof. induction 1; constructor; assumption. Qed.
+
+(* ---- updates of the core *)
+Definition k_set_lprops (k : core) (lp : list prop) : core :=
+  mkC (k_unit k) lp (k_cells k) (k_target k) (k_cn k) (k_cnn k) (k_cnp k) (k_ts k) (k_tsn k) (k_pn k) (k_pnn k)
+      (k_ps k) (k_psn k) (k_md k).
+Definition k_set_cells (k : core) (cs : list cell) (tg : ptarget) : core :=
+  mkC (k_unit k) (k_lprops k) cs tg (k_cn k) (k_cnn k) (k_cnp k) (k_ts k) (k_tsn k) (k_pn k) (k_pnn k)
+      (k_ps k) (k_psn k) (k_md k).
+Definition k_set_cnp (k : core) (cnp : list (N * prop)) : core :=
+  mkC (k_unit k) (k_lprops k) (k_cells k) (k_target k) (k_cn k) (k_cnn k) cnp (k_ts k) (k_tsn k) (k_pn k) (k_pnn k)
+      (k_ps k) (k_psn k) (k_md k).
+
+(* ---- a PROPERTY record under each of the three targets the writer uses *)
+Lemma step_prop_lib ois m k p : wf_nprop p -> k_target k = T_lib ->
+  steps ois m k [enc_prop_g p] (pmodal m p) (k_set_lprops k (p :: k_lprops k)).
+Proof.
+  intros Hp Ht. pose proof (dec_property_enc m p) as H. destruct (enc_prop_g p) as [|code body] eqn:E; [destruct (H [] Hp)|].
+  apply steps_one; [discriminate|]. intros rest. destruct (H rest Hp) as [-> Hd].
+  unfold dec_record. cbn [app]. rewrite rd_uint_small by lia. cbn [obnd]. cbn [DS d_modal]. rewrite Hd. cbn [obnd].
+  unfold add_prop. cbn [DS d_target]. rewrite Ht. destruct k. cbn in *. subst. reflexivity.
+Qed.
+
+Definition push_eprop (c : cell) (p : prop) : option cell :=
+  match c_elems c with
+  | (e, ps) :: es => Some (mkCell (c_name c) (c_props c) ((e, p :: ps) :: es))
+  | [] => None
+  end.
+Lemma step_prop_elem ois m k p c c' cs : wf_nprop p -> k_target k = T_elem -> k_cells k = c :: cs ->
+  push_eprop c p = Some c' ->
+  steps ois m k [enc_prop_g p] (pmodal m p) (k_set_cells k (c' :: cs) T_elem).
+Proof.
+  intros Hp Ht Hc Hpush. pose proof (dec_property_enc m p) as H.
+  destruct (enc_prop_g p) as [|code body] eqn:E; [destruct (H [] Hp)|].
+  apply steps_one; [discriminate|]. intros rest. destruct (H rest Hp) as [-> Hd].
+  unfold dec_record. cbn [app]. rewrite rd_uint_small by lia. cbn [obnd]. cbn [DS d_modal]. rewrite Hd. cbn [obnd].
+  unfold add_prop. cbn [DS d_target d_cells]. rewrite Ht, Hc. unfold push_eprop in Hpush.
+  destruct (c_elems c) as [|[e ps] es]; [discriminate|]. injection Hpush as <-.
+  destruct k. cbn in *. subst. reflexivity.
+Qed.
+
+Lemma step_prop_cellname ois m k p n : wf_nprop p -> k_target k = T_cellname n ->
+  steps ois m k [enc_prop_g p] (pmodal m p) (k_set_cnp k ((n, p) :: k_cnp k)).
+Proof.
+  intros Hp Ht. pose proof (dec_property_enc m p) as H. destruct (enc_prop_g p) as [|code body] eqn:E; [destruct (H [] Hp)|].
+  apply steps_one; [discriminate|]. intros rest. destruct (H rest Hp) as [-> Hd].
+  unfold dec_record. cbn [app]. rewrite rd_uint_small by lia. cbn [obnd]. cbn [DS d_modal]. rewrite Hd. cbn [obnd].
+  unfold add_prop. cbn [DS d_target]. rewrite Ht. destruct k. cbn in *. subst. reflexivity.
+Qed.
+
+Lemma pmodal_abs m p : m_abs (pmodal m p) = m_abs m. Proof. reflexivity. Qed.
+
+(* ---- lists of PROPERTY records *)
+Lemma steps_props_lib ois ps : forall m k, Forall wf_nprop ps -> k_target k = T_lib -> m_abs m = true ->
+  exists m', steps ois m k (map enc_prop_g ps) m' (k_set_lprops k (rev ps ++ k_lprops k)) /\ m_abs m' = true.
+Proof.
+  induction ps as [|p t IH]; intros m k Hf Ht Ha.
+  - exists m. split; [|exact Ha]. destruct k; constructor.
+  - inversion Hf as [|? ? Hp Hr]; subst.
+    destruct (IH (pmodal m p) (k_set_lprops k (p :: k_lprops k)) Hr Ht Ha) as (m' & Hs & Ha').
+    exists m'. split; [|exact Ha']. cbn [map]. change (enc_prop_g p :: map enc_prop_g t) with ([enc_prop_g p] ++ map enc_prop_g t).
+    eapply steps_app; [apply (step_prop_lib ois m k p Hp Ht)|].
+    cbn [rev]. rewrite <- app_assoc. cbn [app]. destruct k; exact Hs.
+Qed.
+
+Lemma steps_props_cellname ois n ps : forall m k, Forall wf_nprop ps -> k_target k = T_cellname n -> m_abs m = true ->
+  exists m', steps ois m k (map enc_prop_g ps) m' (k_set_cnp k (rev (map (fun p => (n, p)) ps) ++ k_cnp k)) /\ m_abs m' = true.
+Proof.
+  induction ps as [|p t IH]; intros m k Hf Ht Ha.
+  - exists m. split; [|exact Ha]. destruct k; constructor.
+  - inversion Hf as [|? ? Hp Hr]; subst.
+    destruct (IH (pmodal m p) (k_set_cnp k ((n, p) :: k_cnp k)) Hr Ht Ha) as (m' & Hs & Ha').
+    exists m'. split; [|exact Ha']. cbn [map]. change (enc_prop_g p :: map enc_prop_g t) with ([enc_prop_g p] ++ map enc_prop_g t).
+    eapply steps_app; [apply (step_prop_cellname ois m k p n Hp Ht)|].
+    cbn [rev]. rewrite <- app_assoc. cbn [app]. destruct k; exact Hs.
+Qed.
+
+(* properties of the last element of the current cell *)
+Definition add_eprops (c : cell) (ps : list prop) : cell :=
+  match c_elems c with
+  | (e, ps0) :: es => mkCell (c_name c) (c_props c) ((e, rev ps ++ ps0) :: es)
+  | [] => c
+  end.
+Lemma steps_props_elem ois ps : forall m k c cs, Forall wf_nprop ps -> k_target k = T_elem -> k_cells k = c :: cs ->
+  c_elems c <> [] -> m_abs m = true ->
+  exists m', steps ois m k (map enc_prop_g ps) m' (k_set_cells k (add_eprops c ps :: cs) T_elem) /\ m_abs m' = true.
+Proof.
+  induction ps as [|p t IH]; intros m k c cs Hf Ht Hc Hne Ha.
+  - exists m. split; [|exact Ha]. unfold add_eprops. destruct (c_elems c) as [|[e ps0] es] eqn:E; [congruence|].
+    cbn [rev app map]. replace (mkCell (c_name c) (c_props c) ((e, ps0) :: es)) with c by (destruct c; cbn in *; subst; reflexivity).
+    destruct k; cbn in *; subst; constructor.
+  - inversion Hf as [|? ? Hp Hr]; subst.
+    destruct (c_elems c) as [|[e ps0] es] eqn:E; [congruence|].
+    set (c1 := mkCell (c_name c) (c_props c) ((e, p :: ps0) :: es)).
+    destruct (IH (pmodal m p) (k_set_cells k (c1 :: cs) T_elem) c1 cs Hr eq_refl eq_refl ltac:(discriminate) Ha) as (m' & Hs & Ha').
+    exists m'. split; [|exact Ha']. cbn [map]. change (enc_prop_g p :: map enc_prop_g t) with ([enc_prop_g p] ++ map enc_prop_g t).
+    eapply steps_app; [apply (step_prop_elem ois m k p c c1 cs Hp Ht Hc); unfold push_eprop; rewrite E; reflexivity|].
+    unfold add_eprops in *. rewrite E. subst c1. cbn [c_elems c_name c_props] in Hs.
+    cbn [rev]. rewrite <- app_assoc. cbn [app]. destruct k; exact Hs.
+Qed.
+
+(* ================================================================== element records *)
+Definition push_ep (c : cell) (ep : element * list prop) : cell :=
+  mkCell (c_name c) (c_props c) ((fst ep, rev (snd ep)) :: c_elems c).
+
+Lemma elem_then_props ois m k c cs rec e pd m1 :
+  rec <> [] -> k_cells k = c :: cs ->
+  (forall rest, dec_record ois (DS m k) (rec ++ rest) =
+                Some (Cont (DS m1 (k_set_cells k (push_elem c e :: cs) T_elem)) rest)) ->
+  m_abs m1 = true -> Forall wf_nprop pd ->
+  exists m', steps ois m k (rec :: map enc_prop_g pd) m' (k_set_cells k (push_ep c (e, pd) :: cs) T_elem) /\ m_abs m' = true.
+Proof.
+  intros Hne Hc Hrec Ha Hpd.
+  destruct (steps_props_elem ois pd m1 (k_set_cells k (push_elem c e :: cs) T_elem) (push_elem c e) cs Hpd eq_refl eq_refl
+              ltac:(discriminate) Ha) as (m' & Hs & Ha').
+  exists m'. split; [|exact Ha'].
+  econstructor; [exact Hne|exact Hrec|].
+  unfold add_eprops, push_elem in Hs. cbn [c_elems c_name c_props] in Hs. rewrite app_nil_r in Hs.
+  unfold push_ep. cbn [fst snd]. destruct k; exact Hs.
+Qed.
+
+Ltac elem_rec_tac Hd Hc :=
+  unfold dec_record; cbn [app]; rewrite rd_uint_small by lia; cbn [obnd]; unfold elem_step; cbn [DS d_modal];
+  rewrite Hd; cbn [obnd]; unfold add_elem; cbn [DS d_cells]; rewrite Hc; reflexivity.
+
+Lemma dec_record_polygon ois m k c cs body e m1 rest : k_cells k = c :: cs ->
+  dec_polygon m (body ++ rest) = Some (e, m1, rest) ->
+  dec_record ois (DS m k) ((21 :: body) ++ rest) = Some (Cont (DS m1 (k_set_cells k (push_elem c e :: cs) T_elem)) rest).
+Proof. intros Hc Hd. elem_rec_tac Hd Hc. Qed.
+Lemma dec_record_path ois m k c cs body e m1 rest : k_cells k = c :: cs ->
+  dec_path m (body ++ rest) = Some (e, m1, rest) ->
+  dec_record ois (DS m k) ((22 :: body) ++ rest) = Some (Cont (DS m1 (k_set_cells k (push_elem c e :: cs) T_elem)) rest).
+Proof. intros Hc Hd. elem_rec_tac Hd Hc. Qed.
+Lemma dec_record_text ois m k c cs body e m1 rest : k_cells k = c :: cs ->
+  dec_text m (body ++ rest) = Some (e, m1, rest) ->
+  dec_record ois (DS m k) ((19 :: body) ++ rest) = Some (Cont (DS m1 (k_set_cells k (push_elem c e :: cs) T_elem)) rest).
+Proof. intros Hc Hd. elem_rec_tac Hd Hc. Qed.
+Lemma dec_record_place17 ois m k c cs body e m1 rest : k_cells k = c :: cs ->
+  dec_placement 17 m (body ++ rest) = Some (e, m1, rest) ->
+  dec_record ois (DS m k) ((17 :: body) ++ rest) = Some (Cont (DS m1 (k_set_cells k (push_elem c e :: cs) T_elem)) rest).
+Proof. intros Hc Hd. elem_rec_tac Hd Hc. Qed.
+Lemma dec_record_place18 ois m k c cs body e m1 rest : k_cells k = c :: cs ->
+  dec_placement 18 m (body ++ rest) = Some (e, m1, rest) ->
+  dec_record ois (DS m k) ((18 :: body) ++ rest) = Some (Cont (DS m1 (k_set_cells k (push_elem c e :: cs) T_elem)) rest).
+Proof. intros Hc Hd. elem_rec_tac Hd Hc. Qed.
+
+(* positions are written explicitly, and the xy-mode stays absolute *)
+Lemma pos_fld_abs mv z rest : fits63 z -> pos_fld true true mv (enc_int z ++ rest) = Some (z, rest).
+Proof. intros H. unfold pos_fld. rewrite rd_int_enc by exact H. reflexivity. Qed.
+Lemma fld_true {A} (rd : list N -> option (A * list N)) mv bs : fld true rd mv bs = rd bs.
+Proof. reflexivity. Qed.
+
+Lemma zc_fits z : zc z -> fits63 z.
+Proof. unfold zc, fits63. rewrite two63_val. change (2 ^ 62)%Z with 4611686018427387904%Z. lia. Qed.
+Lemma deltas_from_fits t : forall p0, ptc p0 -> Forall ptc t -> Forall fits_pt (deltas_from p0 t).
+Proof.
+  induction t as [|a t' IH]; intros p0 H0 Hf; [constructor|].
+  inversion Hf as [|? ? Ha Ht]; subst. cbn [deltas_from]. constructor; [|apply IH; assumption].
+  destruct H0 as [A B], Ha as [C D]. unfold zc in *. unfold fits_pt, fits63. rewrite two63_val. cbn [fst snd].
+  change (2 ^ 62)%Z with 4611686018427387904%Z in *. lia.
+Qed.
+
+(* ---- POLYGON *)
+Definition wpoly_ok (p : wpoly) : Prop :=
+  wf_u (py_layer p) /\ wf_u (py_type p) /\ py_pts p <> [] /\ Forall ptc (py_pts p) /\
+  N.of_nat (length (py_pts p)) < two64 /\ wrep_ok (py_rep p).
+
+Lemma info_bits_3B (b : bool) :
+  let info := 59 + (if b then 4 else 0) in
+  bit info 0 = true /\ bit info 1 = true /\ bit info 2 = b /\ bit info 3 = true /\ bit info 4 = true /\
+  bit info 5 = true /\ bit info 6 = false /\ bit info 7 = false.
+Proof. destruct b; vm_compute; repeat split; reflexivity. Qed.
+
+Lemma rep_bit_if r b : rep_bit r b = if has_rep r then b else 0. Proof. reflexivity. Qed.
+
+Definition poly_ghost (p : wpoly) : element :=
+  E_poly (py_layer p) (py_type p) (rel_pts (py_pts p)) (fst (first_pt (py_pts p))) (snd (first_pt (py_pts p)))
+         (view_rep (py_rep p)).
+
+Lemma dec_polygon_w m p : wpoly_ok p -> m_abs m = true ->
+  exists m1,
+    (forall rest,
+       dec_polygon m (((59 + rep_bit (py_rep p) 4) :: enc_uint (py_layer p) ++ enc_uint (py_type p) ++
+                       enc_point_list true (py_pts p) ++ enc_int (fst (first_pt (py_pts p))) ++
+                       enc_int (snd (first_pt (py_pts p))) ++ rep_field (py_rep p)) ++ rest) =
+       Some (poly_ghost p, m1, rest)) /\ m_abs m1 = true.
+Proof.
+  intros (Hl & Hd & Hne & Hpts & Hlen & Hrep) Ha.
+  destruct (py_pts p) as [|p0 t] eqn:Ep; [congruence|]. inversion Hpts as [|? ? H0 Ht]; subst.
+  eexists. split; [intros rest|]. unfold dec_polygon. cbn [app rd_byte obnd]. rewrite rep_bit_if.
+  destruct (info_bits_3B (has_rep (py_rep p))) as (B0 & B1 & B2 & B3 & B4 & B5 & B6 & B7).
+  cbv zeta in B0, B1, B2, B3, B4, B5, B6, B7. rewrite B0, B1, B2, B3, B4, B5, B6, B7. cbn [orb].
+  rewrite <- !app_assoc. cbn [fld].
+  rewrite rd_uint_enc by exact Hl. cbn [obnd fld]. rewrite rd_uint_enc by exact Hd. cbn [obnd fld].
+  rewrite rd_plist_enc_point_list; [|apply deltas_from_fits; assumption|cbn [length] in Hlen; unfold pt in *; lia]. cbn [obnd].
+  rewrite Ha. unfold first_pt. cbn [hd].
+  rewrite pos_fld_abs by (apply zc_fits; apply H0). cbn [obnd].
+  rewrite pos_fld_abs by (apply zc_fits; apply H0). cbn [obnd].
+  rewrite rep_field_dec by exact Hrep. cbn [obnd].
+  unfold poly_ghost. rewrite Ep. unfold first_pt. cbn [hd]. reflexivity.
+  cbn. first [exact Ha|reflexivity].
+Qed.
+
+(* ---- PATH *)
+Definition wend_ok (e : wend) : Prop :=
+  match e with WE_ext es ee => fits63 es /\ fits63 ee | _ => True end.
+Definition wpel_ok (el : wpel) : Prop :=
+  wf_u (pe_layer el) /\ wf_u (pe_type el) /\ wf_u (pe_hw el) /\ wend_ok (pe_end el).
+Definition wpath_ok (h : wpath) : Prop :=
+  Forall wpel_ok (ph_els h) /\ Forall ptc (ph_pts h) /\ N.of_nat (length (ph_pts h)) < two64 /\ wrep_ok (ph_rep h).
+
+Lemma info_bits_FB (b : bool) :
+  let info := 251 + (if b then 4 else 0) in
+  bit info 0 = true /\ bit info 1 = true /\ bit info 2 = b /\ bit info 3 = true /\ bit info 4 = true /\
+  bit info 5 = true /\ bit info 6 = true /\ bit info 7 = true.
+Proof. destruct b; vm_compute; repeat split; reflexivity. Qed.
+
+Lemma ext_half_dec hw e mv rest : fits63 e -> wf_u hw ->
+  (fst (ext_half hw e) = 1 \/ fst (ext_half hw e) = 2 \/ fst (ext_half hw e) = 3) /\
+  ext_fld (fst (ext_half hw e)) hw mv
+          ((if (snd (ext_half hw e) =? 0)%Z then [] else enc_int (snd (ext_half hw e))) ++ rest) = Some (e, rest).
+Proof.
+  intros He Hw. unfold ext_half.
+  destruct (e =? 0)%Z eqn:E0.
+  - apply Z.eqb_eq in E0. subst e. cbn [fst snd]. split; [tauto|]. reflexivity.
+  - apply Z.eqb_neq in E0. destruct ((0 <? e)%Z && (u64z e =? hw)) eqn:E1.
+    + apply andb_true_iff in E1. destruct E1 as [P1 P2]. apply Z.ltb_lt in P1. apply N.eqb_eq in P2.
+      cbn [fst snd]. split; [tauto|]. cbn [ext_fld Z.eqb app]. f_equal. f_equal.
+      rewrite <- P2. rewrite u64z_nonneg.
+      * rewrite Z2N.id by lia. reflexivity.
+      * unfold fits63 in He. rewrite two63_val in He. change (2 ^ 64)%Z with 18446744073709551616%Z. lia.
+    + cbn [fst snd]. split; [tauto|]. replace (e =? 0)%Z with false by (symmetry; apply Z.eqb_neq; exact E0).
+      cbn [ext_fld]. rewrite rd_int_enc by exact He. reflexivity.
+Qed.
+
+Lemma ext_scheme_dec hw e mvs mve rest : wend_ok e -> wf_u hw ->
+  (let? '(sch, bs) := rd_uint (extension_scheme hw e ++ rest) in
+   if 16 <=? sch then None else
+   let? '(es, bs) := ext_fld (N.land (N.shiftr sch 2) 3) hw mvs bs in
+   let? '(ee, bs) := ext_fld (N.land sch 3) hw mve bs in
+   Some (es, ee, bs)) = Some (fst (view_ext hw e), snd (view_ext hw e), rest).
+Proof.
+  intros He Hw. destruct e as [| |es ee]; cbn [extension_scheme view_ext fst snd app].
+  - rewrite rd_uint_small by lia. reflexivity.
+  - rewrite rd_uint_small by lia. reflexivity.
+  - destruct He as [Hs He].
+    destruct (ext_half_dec hw es mvs ((if (snd (ext_half hw ee) =? 0)%Z then [] else enc_int (snd (ext_half hw ee))) ++ rest) Hs Hw)
+      as [Cs Ds].
+    destruct (ext_half_dec hw ee mve rest He Hw) as [Ce De].
+    destruct (ext_half hw es) as [cs vs]. destruct (ext_half hw ee) as [ce ve]. cbn [fst snd] in *.
+    destruct (scheme_split cs ce) as (S1 & S2 & S3); [lia|lia|].
+    rewrite (N.mul_comm 4 cs). cbn [app].
+    rewrite rd_uint_small by lia. cbn [obnd].
+    replace (16 <=? cs * 4 + ce) with false by (symmetry; apply N.leb_gt; exact S1).
+    rewrite S2, S3. rewrite <- app_assoc. rewrite Ds. cbn [obnd]. rewrite De. reflexivity.
+Qed.
+
+Definition path_ghost (h : wpath) (el : wpel) : element :=
+  E_path (pe_layer el) (pe_type el) (pe_hw el) (fst (view_ext (pe_hw el) (pe_end el)))
+         (snd (view_ext (pe_hw el) (pe_end el))) (rel_pts (ph_pts h))
+         (fst (first_pt (ph_pts h))) (snd (first_pt (ph_pts h))) (view_rep (ph_rep h)).
+
+Lemma dec_path_w m h el : wpath_ok h -> wpel_ok el -> ph_pts h <> [] -> m_abs m = true ->
+  exists m1,
+    (forall rest,
+       dec_path m (((251 + rep_bit (ph_rep h) 4) :: enc_uint (pe_layer el) ++ enc_uint (pe_type el) ++ enc_uint (pe_hw el) ++
+                    extension_scheme (pe_hw el) (pe_end el) ++ enc_point_list false (ph_pts h) ++
+                    enc_int (fst (first_pt (ph_pts h))) ++ enc_int (snd (first_pt (ph_pts h))) ++ rep_field (ph_rep h)) ++ rest) =
+       Some (path_ghost h el, m1, rest)) /\ m_abs m1 = true.
+Proof.
+  intros (_ & Hpts & Hlen & Hrep) (Hl & Hd & Hw & He) Hne Ha.
+  destruct (ph_pts h) as [|p0 t] eqn:Ep; [congruence|]. inversion Hpts as [|? ? H0 Ht]; subst.
+  eexists. split; [intros rest|]. unfold dec_path. cbn [app rd_byte obnd]. rewrite rep_bit_if.
+  destruct (info_bits_FB (has_rep (ph_rep h))) as (B0 & B1 & B2 & B3 & B4 & B5 & B6 & B7).
+  cbv zeta in B0, B1, B2, B3, B4, B5, B6, B7. rewrite B0, B1, B2, B3, B4, B5, B6, B7.
+  rewrite <- !app_assoc. cbn [fld].
+  rewrite rd_uint_enc by exact Hl. cbn [obnd fld]. rewrite rd_uint_enc by exact Hd. cbn [obnd fld].
+  rewrite rd_uint_enc by exact Hw. cbn [obnd fld].
+  rewrite (ext_scheme_dec (pe_hw el) (pe_end el) _ _ _ He Hw). cbn [obnd fld].
+  rewrite rd_plist_enc_point_list; [|apply deltas_from_fits; assumption|cbn [length] in Hlen; unfold pt in *; lia]. cbn [obnd].
+  rewrite Ha. unfold first_pt. cbn [hd].
+  rewrite pos_fld_abs by (apply zc_fits; apply H0). cbn [obnd].
+  rewrite pos_fld_abs by (apply zc_fits; apply H0). cbn [obnd].
+  rewrite rep_field_dec by exact Hrep. cbn [obnd].
+  unfold path_ghost. rewrite Ep. unfold first_pt. cbn [hd]. reflexivity.
+  cbn. first [exact Ha|reflexivity].
+Qed.
+
+(* ---- TEXT *)
+Definition wlabel_ok (t : wlabel) : Prop :=
+  wf_u (lb_layer t) /\ wf_u (lb_type t) /\ fits63 (lb_x t) /\ fits63 (lb_y t) /\ wrep_ok (lb_rep t).
+
+Lemma info_bits_7B (b : bool) :
+  let info := 123 + (if b then 4 else 0) in
+  bit info 0 = true /\ bit info 1 = true /\ bit info 2 = b /\ bit info 3 = true /\ bit info 4 = true /\
+  bit info 5 = true /\ bit info 6 = true /\ bit info 7 = false.
+Proof. destruct b; vm_compute; repeat split; reflexivity. Qed.
+
+Lemma dec_text_w m t index : wlabel_ok t -> wf_u index -> m_abs m = true ->
+  exists m1,
+    (forall rest,
+       dec_text m (((123 + rep_bit (lb_rep t) 4) :: enc_uint index ++ enc_uint (lb_layer t) ++ enc_uint (lb_type t) ++
+                    enc_int (lb_x t) ++ enc_int (lb_y t) ++ rep_field (lb_rep t)) ++ rest) =
+       Some (E_text (NNum index) (lb_layer t) (lb_type t) (lb_x t) (lb_y t) (view_rep (lb_rep t)), m1, rest))
+    /\ m_abs m1 = true.
+Proof.
+  intros (Hl & Hd & Hx & Hy & Hrep) Hi Ha.
+  eexists. split; [intros rest|]. unfold dec_text. cbn [app rd_byte obnd]. rewrite rep_bit_if.
+  destruct (info_bits_7B (has_rep (lb_rep t))) as (B0 & B1 & B2 & B3 & B4 & B5 & B6 & B7).
+  cbv zeta in B0, B1, B2, B3, B4, B5, B6, B7. rewrite B0, B1, B2, B3, B4, B5, B6, B7.
+  rewrite <- !app_assoc. cbn [fld rd_nref].
+  rewrite rd_uint_enc by exact Hi. cbn [obnd fld].
+  rewrite rd_uint_enc by exact Hl. cbn [obnd fld]. rewrite rd_uint_enc by exact Hd. cbn [obnd fld].
+  rewrite Ha. rewrite pos_fld_abs by exact Hx. cbn [obnd]. rewrite pos_fld_abs by exact Hy. cbn [obnd].
+  rewrite rep_field_dec by exact Hrep. cbn [obnd]. reflexivity.
+  cbn. first [exact Ha|reflexivity].
+Qed.
+
+(* ---- PLACEMENT *)
+Definition wref_ok (r : wref) : Prop :=
+  wf_str (rf_name r) /\ fits63 (rf_x r) /\ fits63 (rf_y r) /\ wrep_ok (rf_rep r).
+
+Lemma info_bits_place (byn rp fl b2 b1 : bool) :
+  let info := (if byn then 240 else 176) + (if rp then 8 else 0) + (if fl then 1 else 0) +
+              (if b2 then 4 else 0) + (if b1 then 2 else 0) in
+  bit info 0 = fl /\ bit info 1 = b1 /\ bit info 2 = b2 /\ bit info 3 = rp /\ bit info 4 = true /\
+  bit info 5 = true /\ bit info 6 = byn /\ bit info 7 = true /\
+  N.land (N.shiftr info 1) 3 = (if b2 then 2 else 0) + (if b1 then 1 else 0).
+Proof. destruct byn, rp, fl, b2, b1; vm_compute; repeat split; reflexivity. Qed.
+
+Lemma quarter_bits_lt m : quarter_bits m < 4.
+Proof.
+  unfold quarter_bits.
+  assert (H : forall x, (0 <= x)%Z -> Z.to_N (Z.land x 3) < 4).
+  { intros x Hx. change 3%Z with (Z.ones 2). rewrite Z.land_ones by lia.
+    pose proof (Z.mod_pos_bound x (2 ^ 2) ltac:(lia)). change (2 ^ 2)%Z with 4%Z in *. lia. }
+  destruct (m <? 0)%Z eqn:E.
+  - apply Z.ltb_lt in E. apply H. pose proof (Z.rem_bound_pos_neg m 4 ltac:(lia) ltac:(lia)). lia.
+  - apply Z.ltb_ge in E. apply H. pose proof (Z.rem_bound_pos m 4 E ltac:(lia)). lia.
+Qed.
+
+Definition cell_ref (cells : list (list N)) (name : list N) : nref :=
+  match cell_index cells name with Some i => NNum i | None => NName name end.
+Definition cell_ref_ok (cells : list (list N)) (name : list N) : Prop :=
+  match cell_index cells name with Some i => wf_u i | None => True end.
+
+Lemma rd_cell_ref cells name rest : wf_str name -> cell_ref_ok cells name ->
+  rd_nref (match cell_index cells name with Some _ => true | None => false end)
+          ((match cell_index cells name with Some i => enc_uint i | None => wr_cstring name end) ++ rest) =
+  Some (cell_ref cells name, rest).
+Proof.
+  intros Hs Hi. unfold cell_ref, cell_ref_ok in *. destruct (cell_index cells name) as [i|]; cbn [rd_nref].
+  - rewrite rd_uint_enc by exact Hi. reflexivity.
+  - change (wr_cstring name) with (wr_string name). rewrite rd_string_enc by exact Hs. reflexivity.
+Qed.
+
+Lemma dec_placement17_w m cells r q : wref_ok r -> cell_ref_ok cells (rf_name r) -> q < 4 -> m_abs m = true ->
+  exists m1, (forall rest,
+    dec_placement 17 m
+      ((((match cell_index cells (rf_name r) with Some _ => 240 | None => 176 end) + rep_bit (rf_rep r) 8 +
+         (if rf_flip r then 1 else 0) + 2 * q) ::
+        (match cell_index cells (rf_name r) with Some i => enc_uint i | None => wr_cstring (rf_name r) end) ++
+        enc_int (rf_x r) ++ enc_int (rf_y r) ++ rep_field (rf_rep r)) ++ rest) =
+    Some (E_place (cell_ref cells (rf_name r)) (PT_quarter q) (rf_flip r) (rf_x r) (rf_y r) (view_rep (rf_rep r)), m1, rest))
+    /\ m_abs m1 = true.
+Proof.
+  intros (Hs & Hx & Hy & Hrep) Hi Hq Ha.
+  eexists. split; [intros rest|].
+  pose proof (rd_cell_ref cells (rf_name r) (enc_int (rf_x r) ++ enc_int (rf_y r) ++ rep_field (rf_rep r) ++ rest) Hs Hi) as Hc.
+  unfold dec_placement. cbn [app rd_byte obnd]. rewrite rep_bit_if.
+  assert (Hinfo : (match cell_index cells (rf_name r) with Some _ => 240 | None => 176 end) +
+                  (if has_rep (rf_rep r) then 8 else 0) + (if rf_flip r then 1 else 0) + 2 * q =
+                  (if (match cell_index cells (rf_name r) with Some _ => true | None => false end) then 240 else 176) +
+                  (if has_rep (rf_rep r) then 8 else 0) + (if rf_flip r then 1 else 0) +
+                  (if N.testbit q 1 then 4 else 0) + (if N.testbit q 0 then 2 else 0)).
+  { assert (E : q = 0 \/ q = 1 \/ q = 2 \/ q = 3) by lia.
+    destruct (cell_index cells (rf_name r)); destruct (has_rep (rf_rep r)); destruct (rf_flip r);
+      destruct E as [E|[E|[E|E]]]; subst q; reflexivity. }
+  rewrite Hinfo.
+  destruct (info_bits_place (match cell_index cells (rf_name r) with Some _ => true | None => false end)
+                            (has_rep (rf_rep r)) (rf_flip r) (N.testbit q 1) (N.testbit q 0))
+    as (B0 & B1 & B2 & B3 & B4 & B5 & B6 & B7 & BA).
+  cbv zeta in B0, B1, B2, B3, B4, B5, B6, B7, BA. rewrite B0, B3, B4, B5, B6, B7, BA. rewrite aa_bits by exact Hq.
+  rewrite <- !app_assoc. cbn [fld]. rewrite Hc. cbn [obnd N.eqb Pos.eqb].
+  rewrite Ha. rewrite pos_fld_abs by exact Hx. cbn [obnd]. rewrite pos_fld_abs by exact Hy. cbn [obnd].
+  rewrite rep_field_dec by exact Hrep. cbn [obnd]. reflexivity.
+  cbn. first [exact Ha|reflexivity].
+Qed.
+
+Lemma dec_placement18_w m cells r (hm hr : bool) mb rb :
+  wref_ok r -> cell_ref_ok cells (rf_name r) -> m_abs m = true ->
+  exists m1, (forall rest,
+    dec_placement 18 m
+      ((((match cell_index cells (rf_name r) with Some _ => 240 | None => 176 end) + rep_bit (rf_rep r) 8 +
+         (if rf_flip r then 1 else 0) + (if hm then 4 else 0) + (if hr then 2 else 0)) ::
+        (match cell_index cells (rf_name r) with Some i => enc_uint i | None => wr_cstring (rf_name r) end) ++
+        (if hm then enc_real mb else []) ++ (if hr then enc_real rb else []) ++
+        enc_int (rf_x r) ++ enc_int (rf_y r) ++ rep_field (rf_rep r)) ++ rest) =
+    Some (E_place (cell_ref cells (rf_name r))
+                  (PT_general (if hm then Some (real_of_bits mb) else None) (if hr then Some (real_of_bits rb) else None))
+                  (rf_flip r) (rf_x r) (rf_y r) (view_rep (rf_rep r)), m1, rest))
+    /\ m_abs m1 = true.
+Proof.
+  intros (Hs & Hx & Hy & Hrep) Hi Ha.
+  assert (Hinfo : (match cell_index cells (rf_name r) with Some _ => 240 | None => 176 end) +
+                  (if has_rep (rf_rep r) then 8 else 0) + (if rf_flip r then 1 else 0) + (if hm then 4 else 0) +
+                  (if hr then 2 else 0) =
+                  (if (match cell_index cells (rf_name r) with Some _ => true | None => false end) then 240 else 176) +
+                  (if has_rep (rf_rep r) then 8 else 0) + (if rf_flip r then 1 else 0) +
+                  (if hm then 4 else 0) + (if hr then 2 else 0)).
+  { destruct (cell_index cells (rf_name r)); reflexivity. }
+  destruct (info_bits_place (match cell_index cells (rf_name r) with Some _ => true | None => false end)
+                            (has_rep (rf_rep r)) (rf_flip r) hm hr)
+    as (B0 & B1 & B2 & B3 & B4 & B5 & B6 & B7 & BA).
+  cbv zeta in B0, B1, B2, B3, B4, B5, B6, B7, BA.
+  destruct hm, hr;
+    (eexists; split;
+     [intros rest; unfold dec_placement; cbn [app rd_byte obnd]; rewrite rep_bit_if; rewrite Hinfo;
+      rewrite B0, B1, B2, B3, B4, B5, B6, B7;
+      rewrite <- !app_assoc; cbn [fld];
+      rewrite (rd_cell_ref cells (rf_name r) _ Hs Hi); cbn [obnd N.eqb Pos.eqb app];
+      rewrite ?rd_real_enc_real; cbn [obnd]; rewrite ?rd_real_enc_real; cbn [obnd];
+      rewrite Ha; rewrite pos_fld_abs by exact Hx; cbn [obnd]; rewrite pos_fld_abs by exact Hy; cbn [obnd];
+      rewrite rep_field_dec by exact Hrep; cbn [obnd]; reflexivity
+     |cbn; first [exact Ha|reflexivity]]).
+Qed.
+
+(* ================================================================== the records of one cell *)
+Definition wf_gelem (e : element) : Prop :=
+  match e with
+  | E_text (NNum i) _ _ _ _ _ => wf_u i
+  | E_place (NNum i) _ _ _ _ _ => wf_u i
+  | _ => True
+  end.
+Definition wf_gep (ep : element * list prop) : Prop := wf_gelem (fst ep) /\ Forall wf_nprop (snd ep).
+
+Definition push_eps (c : cell) (eps : list (element * list prop)) : cell := fold_left push_ep eps c.
+Lemma push_eps_app c a b : push_eps c (a ++ b) = push_eps (push_eps c a) b.
+Proof. unfold push_eps. apply fold_left_app. Qed.
+
+(* the shape every element lemma has; no element = no record = nothing changes *)
+Definition after_elems (k : core) (c : cell) (cs : list cell) (eps : list (element * list prop)) : core :=
+  match eps with [] => k | _ => k_set_cells k (push_eps c eps :: cs) T_elem end.
+Definition elem_steps ois (recs : list (list N)) (eps : list (element * list prop)) : Prop :=
+  forall m k c cs, m_abs m = true -> k_cells k = c :: cs ->
+  exists m', steps ois m k recs m' (after_elems k c cs eps) /\ m_abs m' = true.
+
+Lemma after_elems_cells k c cs eps : k_cells k = c :: cs -> k_cells (after_elems k c cs eps) = push_eps c eps :: cs.
+Proof. intros H. destruct eps; [exact H|reflexivity]. Qed.
+
+Lemma elem_steps_nil ois : elem_steps ois [] [].
+Proof. intros m k c cs Ha Hc. exists m. split; [constructor|exact Ha]. Qed.
+
+Lemma elem_steps_app ois r1 e1 r2 e2 : elem_steps ois r1 e1 -> elem_steps ois r2 e2 -> elem_steps ois (r1 ++ r2) (e1 ++ e2).
+Proof.
+  intros H1 H2 m k c cs Ha Hc.
+  destruct (H1 m k c cs Ha Hc) as (m1 & S1 & A1).
+  destruct (H2 m1 (after_elems k c cs e1) (push_eps c e1) cs A1 (after_elems_cells k c cs e1 Hc)) as (m2 & S2 & A2).
+  exists m2. split; [|exact A2]. eapply steps_app; [exact S1|].
+  replace (after_elems k c cs (e1 ++ e2)) with (after_elems (after_elems k c cs e1) (push_eps c e1) cs e2); [exact S2|].
+  destruct e1 as [|a1 t1]; [reflexivity|]. destruct e2 as [|a2 t2].
+  - rewrite app_nil_r. reflexivity.
+  - unfold after_elems. cbn [app]. rewrite <- push_eps_app. destruct k; reflexivity.
+Qed.
+
+Lemma elem_steps_one ois rec e pd :
+  rec <> [] -> Forall wf_nprop pd ->
+  (forall m k c cs, m_abs m = true -> k_cells k = c :: cs ->
+     exists m1, (forall rest, dec_record ois (DS m k) (rec ++ rest) =
+                              Some (Cont (DS m1 (k_set_cells k (push_elem c e :: cs) T_elem)) rest)) /\ m_abs m1 = true) ->
+  elem_steps ois (rec :: map enc_prop_g pd) [(e, pd)].
+Proof.
+  intros Hne Hpd H m k c cs Ha Hc. destruct (H m k c cs Ha Hc) as (m1 & Hrec & A1).
+  exact (elem_then_props ois m k c cs rec e pd m1 Hne Hc Hrec A1 Hpd).
+Qed.
+
+Lemma steps_polygon ois st p recs ep st' : polygon_to_oas st p = (recs, ep, st') ->
+  wpoly_ok p -> wf_gep ep -> elem_steps ois recs [ep].
+Proof.
+  unfold polygon_to_oas. pose proof (properties_to_oas_enc (py_props p) st) as Hpr.
+  destruct (properties_to_oas st (py_props p)) as [[pr pd] st1]. cbn [fst snd] in Hpr. subst pr.
+  intros [= <- <- <-] Hok [_ Hpd]. cbn [snd] in Hpd.
+  apply elem_steps_one; [discriminate|exact Hpd|].
+  intros m k c cs Ha Hc. destruct (dec_polygon_w m p Hok Ha) as (m1 & D & A1).
+  exists m1. split; [|exact A1]. intros rest. change OasisRecord_POLYGON with 21.
+  apply (dec_record_polygon ois m k c cs _ _ _ rest Hc (D rest)).
+Qed.
+
+Lemma steps_path_element ois st h el recs ep st' : path_element_to_oas st h el = (recs, ep, st') ->
+  wpath_ok h -> wpel_ok el -> ph_pts h <> [] -> wf_gep ep -> elem_steps ois recs [ep].
+Proof.
+  unfold path_element_to_oas. pose proof (properties_to_oas_enc (ph_props h) st) as Hpr.
+  destruct (properties_to_oas st (ph_props h)) as [[pr pd] st1]. cbn [fst snd] in Hpr. subst pr.
+  intros [= <- <- <-] Hok Hel Hne [_ Hpd]. cbn [snd] in Hpd.
+  apply elem_steps_one; [discriminate|exact Hpd|].
+  intros m k c cs Ha Hc. destruct (dec_path_w m h el Hok Hel Hne Ha) as (m1 & D & A1).
+  exists m1. split; [|exact A1]. intros rest. change OasisRecord_PATH with 22.
+  apply (dec_record_path ois m k c cs _ _ _ rest Hc (D rest)).
+Qed.
+
+Lemma steps_path_elements ois h : wpath_ok h -> ph_pts h <> [] -> forall els st recs eps st',
+  path_elements_to_oas st h els = (recs, eps, st') -> Forall wpel_ok els -> Forall wf_gep eps -> elem_steps ois recs eps.
+Proof.
+  intros Hok Hne. induction els as [|el t IH]; intros st recs eps st' E Hels Hg.
+  - injection E as <- <- <-. apply elem_steps_nil.
+  - cbn [path_elements_to_oas] in E.
+    destruct (path_element_to_oas st h el) as [[r1 d1] st1] eqn:E1.
+    destruct (path_elements_to_oas st1 h t) as [[r2 d2] st2] eqn:E2.
+    injection E as <- <- <-. inversion Hels as [|? ? He Ht]; subst. inversion Hg as [|? ? Hg1 Hg2]; subst.
+    change (d1 :: d2) with ([d1] ++ d2). apply elem_steps_app.
+    + exact (steps_path_element ois st h el r1 d1 st1 E1 Hok He Hne Hg1).
+    + exact (IH st1 r2 d2 st2 E2 Ht Hg2).
+Qed.
+
+Lemma steps_flexpath ois st h recs eps st' : flexpath_to_oas st h = (recs, eps, st') ->
+  wpath_ok h -> Forall wf_gep eps -> elem_steps ois recs eps.
+Proof.
+  unfold flexpath_to_oas. intros E Hok Hg.
+  destruct (length (ph_pts h) <? 2)%nat eqn:El.
+  - injection E as <- <- <-. apply elem_steps_nil.
+  - assert (Hne : ph_pts h <> []) by (intros H0; rewrite H0 in El; discriminate).
+    exact (steps_path_elements ois h Hok Hne (ph_els h) st recs eps st' E (proj1 Hok) Hg).
+Qed.
+
+Lemma steps_reference ois cells st r recs ep st' : reference_to_oas cells st r = (recs, ep, st') ->
+  wref_ok r -> wf_gep ep -> elem_steps ois recs [ep].
+Proof.
+  unfold reference_to_oas. pose proof (properties_to_oas_enc (rf_props r) st) as Hpr.
+  destruct (properties_to_oas st (rf_props r)) as [[pr pd] st1]. cbn [fst snd] in Hpr. subst pr.
+  intros E Hok Hg.
+  assert (Hi : cell_ref_ok cells (rf_name r) /\ Forall wf_nprop pd).
+  { destruct Hg as [G1 G2]. unfold cell_ref_ok.
+    destruct (if b64_is_one (rf_mag r) then rf_quarter r else None); injection E as <- <- <-; cbn [fst snd] in *;
+      (split; [|exact G2]); destruct (cell_index cells (rf_name r)); cbn [wf_gelem] in G1; auto. }
+  destruct Hi as [Hi Hpd].
+  destruct (if b64_is_one (rf_mag r) then rf_quarter r else None) as [q|].
+  - injection E as <- <- <-.
+    apply elem_steps_one; [discriminate|exact Hpd|].
+    intros m k c cs Ha Hc.
+    destruct (dec_placement17_w m cells r (quarter_bits q) Hok Hi (quarter_bits_lt q) Ha) as (m1 & D & A1).
+    exists m1. split; [|exact A1]. intros rest. change OasisRecord_PLACEMENT with 17.
+    apply (dec_record_place17 ois m k c cs _ _ _ rest Hc (D rest)).
+  - injection E as <- <- <-.
+    apply elem_steps_one; [discriminate|exact Hpd|].
+    intros m k c cs Ha Hc.
+    destruct (dec_placement18_w m cells r (negb (b64_is_one (rf_mag r))) (negb (b64_is_zero (rf_rot r)))
+                (rf_mag r) (deg_bits (rf_rot r)) Hok Hi Ha) as (m1 & D & A1).
+    exists m1. split; [|exact A1]. intros rest. change OasisRecord_PLACEMENT_TRANSFORM with 18.
+    apply (dec_record_place18 ois m k c cs _ _ _ rest Hc (D rest)).
+Qed.
+
+Lemma steps_label ois ts st t recs ep ts' st' : label_to_oas ts st t = (recs, ep, ts', st') ->
+  wlabel_ok t -> wf_gep ep -> elem_steps ois recs [ep].
+Proof.
+  unfold label_to_oas. destruct (intern ts (lb_text t)) as [index ts1].
+  pose proof (properties_to_oas_enc (lb_props t) st) as Hpr.
+  destruct (properties_to_oas st (lb_props t)) as [[pr pd] st1]. cbn [fst snd] in Hpr. subst pr.
+  intros [= <- <- <- <-] Hok [Hi Hpd]. cbn [fst snd wf_gelem] in Hi, Hpd.
+  apply elem_steps_one; [discriminate|exact Hpd|].
+  intros m k c cs Ha Hc. destruct (dec_text_w m t index Hok Hi Ha) as (m1 & D & A1).
+  exists m1. split; [|exact A1]. intros rest. change OasisRecord_TEXT with 19.
+  apply (dec_record_text ois m k c cs _ _ _ rest Hc (D rest)).
+Qed.
+
+Lemma steps_polygons ois : forall l st recs eps st', polygons_to_oas st l = (recs, eps, st') ->
+  Forall wpoly_ok l -> Forall wf_gep eps -> elem_steps ois recs eps.
+Proof.
+  induction l as [|p t IH]; intros st recs eps st' E Hok Hg.
+  - injection E as <- <- <-. apply elem_steps_nil.
+  - cbn [polygons_to_oas] in E.
+    destruct (polygon_to_oas st p) as [[r1 d1] st1] eqn:E1. destruct (polygons_to_oas st1 t) as [[r2 d2] st2] eqn:E2.
+    injection E as <- <- <-. inversion Hok as [|? ? Hp Ht]; subst. inversion Hg as [|? ? Hg1 Hg2]; subst.
+    change (d1 :: d2) with ([d1] ++ d2). apply elem_steps_app.
+    + exact (steps_polygon ois st p r1 d1 st1 E1 Hp Hg1).
+    + exact (IH st1 r2 d2 st2 E2 Ht Hg2).
+Qed.
+Lemma steps_flexpaths ois : forall l st recs eps st', flexpaths_to_oas st l = (recs, eps, st') ->
+  Forall wpath_ok l -> Forall wf_gep eps -> elem_steps ois recs eps.
+Proof.
+  induction l as [|p t IH]; intros st recs eps st' E Hok Hg.
+  - injection E as <- <- <-. apply elem_steps_nil.
+  - cbn [flexpaths_to_oas] in E.
+    destruct (flexpath_to_oas st p) as [[r1 d1] st1] eqn:E1. destruct (flexpaths_to_oas st1 t) as [[r2 d2] st2] eqn:E2.
+    injection E as <- <- <-. inversion Hok as [|? ? Hp Ht]; subst. apply Forall_app in Hg. destruct Hg as [Hg1 Hg2].
+    apply elem_steps_app.
+    + exact (steps_flexpath ois st p r1 d1 st1 E1 Hp Hg1).
+    + exact (IH st1 r2 d2 st2 E2 Ht Hg2).
+Qed.
+Lemma steps_references ois cells : forall l st recs eps st', references_to_oas cells st l = (recs, eps, st') ->
+  Forall wref_ok l -> Forall wf_gep eps -> elem_steps ois recs eps.
+Proof.
+  induction l as [|p t IH]; intros st recs eps st' E Hok Hg.
+  - injection E as <- <- <-. apply elem_steps_nil.
+  - cbn [references_to_oas] in E.
+    destruct (reference_to_oas cells st p) as [[r1 d1] st1] eqn:E1.
+    destruct (references_to_oas cells st1 t) as [[r2 d2] st2] eqn:E2.
+    injection E as <- <- <-. inversion Hok as [|? ? Hp Ht]; subst. inversion Hg as [|? ? Hg1 Hg2]; subst.
+    change (d1 :: d2) with ([d1] ++ d2). apply elem_steps_app.
+    + exact (steps_reference ois cells st p r1 d1 st1 E1 Hp Hg1).
+    + exact (IH st1 r2 d2 st2 E2 Ht Hg2).
+Qed.
+Lemma steps_labels ois : forall l ts st recs eps ts' st', labels_to_oas ts st l = (recs, eps, ts', st') ->
+  Forall wlabel_ok l -> Forall wf_gep eps -> elem_steps ois recs eps.
+Proof.
+  induction l as [|p t IH]; intros ts st recs eps ts' st' E Hok Hg.
+  - injection E as <- <- <- <-. apply elem_steps_nil.
+  - cbn [labels_to_oas] in E.
+    destruct (label_to_oas ts st p) as [[[r1 d1] ts1] st1] eqn:E1.
+    destruct (labels_to_oas ts1 st1 t) as [[[r2 d2] ts2] st2] eqn:E2.
+    injection E as <- <- <- <-. inversion Hok as [|? ? Hp Ht]; subst. inversion Hg as [|? ? Hg1 Hg2]; subst.
+    change (d1 :: d2) with ([d1] ++ d2). apply elem_steps_app.
+    + exact (steps_label ois ts st p r1 d1 ts1 st1 E1 Hp Hg1).
+    + exact (IH ts1 st1 r2 d2 ts2 st2 E2 Ht Hg2).
+Qed.
+
+(* ---- a whole cell: CELL record by reference number, then its elements *)
+Definition wcell_ok (c : wcell) : Prop :=
+  Forall wpoly_ok (cl_polys c) /\ Forall wpath_ok (cl_paths c) /\ Forall wref_ok (cl_refs c) /\ Forall wlabel_ok (cl_labels c).
+Definition wf_gcell (c : cell) : Prop :=
+  (exists i, c_name c = NNum i /\ wf_u i) /\ c_props c = [] /\ Forall wf_gep (c_elems c).
+
+(* the cell as the decoder holds it: elements and their properties newest first *)
+Definition rcell_g (c : cell) : cell :=
+  mkCell (c_name c) (c_props c) (rev (map (fun ep => (fst ep, rev (snd ep))) (c_elems c))).
+Lemma push_eps_shape c eps :
+  push_eps c eps = mkCell (c_name c) (c_props c) (rev (map (fun ep => (fst ep, rev (snd ep))) eps) ++ c_elems c).
+Proof.
+  revert c. induction eps as [|ep t IH]; intros c; [destruct c; reflexivity|].
+  unfold push_eps in *. cbn [fold_left]. rewrite IH. unfold push_ep. cbn [c_name c_props c_elems map rev].
+  rewrite <- app_assoc. reflexivity.
+Qed.
+
+Lemma steps_cell ois cells ts st c recs gc ts' st' : cell_to_oas cells ts st c = (recs, gc, ts', st') ->
+  wcell_ok c -> wf_gcell gc -> forall m k, m_abs m = true ->
+  exists m' tg', steps ois m k recs m' (k_set_cells k (rcell_g gc :: k_cells k) tg') /\ m_abs m' = true.
+Proof.
+  unfold cell_to_oas. intros E (Hp & Hh & Hr & Hl) ((i & Hn & Hi) & _ & Hg) m k Ha.
+  destruct (polygons_to_oas st (cl_polys c)) as [[r1 d1] st1] eqn:E1.
+  destruct (flexpaths_to_oas st1 (cl_paths c)) as [[r2 d2] st2] eqn:E2.
+  destruct (references_to_oas cells st2 (cl_refs c)) as [[r3 d3] st3] eqn:E3.
+  destruct (labels_to_oas ts st3 (cl_labels c)) as [[[r4 d4] ts4] st4] eqn:E4.
+  injection E as <- <- <- <-. cbn [c_name c_elems] in *. injection Hn as Hn.
+  apply Forall_app in Hg. destruct Hg as [G1 Hg]. apply Forall_app in Hg. destruct Hg as [G2 Hg].
+  apply Forall_app in Hg. destruct Hg as [G3 G4].
+  pose proof (elem_steps_app ois _ _ _ _ (steps_polygons ois _ _ _ _ _ E1 Hp G1)
+               (elem_steps_app ois _ _ _ _ (steps_flexpaths ois _ _ _ _ _ E2 Hh G2)
+                  (elem_steps_app ois _ _ _ _ (steps_references ois cells _ _ _ _ _ E3 Hr G3)
+                     (steps_labels ois _ _ _ _ _ _ _ E4 Hl G4)))) as Hall.
+  set (c0 := mkCell (NNum i) [] []).
+  destruct (Hall modal0 (k_set_cells k (c0 :: k_cells k) T_cell) c0 (k_cells k) eq_refl eq_refl) as (m' & S & A').
+  exists m'. exists (match d1 ++ d2 ++ d3 ++ d4 with [] => T_cell | _ => T_elem end). split; [|exact A'].
+  apply (steps_cons ois m k _ modal0 (k_set_cells k (c0 :: k_cells k) T_cell)); [discriminate| |].
+  - intros rest. unfold dec_record. change OasisRecord_CELL_REF_NUM with 13. cbn [app]. rewrite rd_uint_small by lia. cbn [obnd].
+    rewrite Hn. rewrite rd_uint_enc by exact Hi. cbn [obnd]. unfold modal_at_cell. cbn [DS d_cells].
+    destruct k; reflexivity.
+  - unfold after_elems in S. unfold rcell_g. cbn [c_name c_props c_elems].
+    destruct (d1 ++ d2 ++ d3 ++ d4) as [|e0 et] eqn:Ed.
+    + cbn [map rev]. subst c0. rewrite Hn in *. exact S.
+    + rewrite push_eps_shape in S. subst c0. cbn [c_name c_props c_elems] in S. rewrite app_nil_r in S.
+      rewrite Hn in *. destruct k; exact S.
+Qed.
+
+Lemma steps_cells ois cells : forall l pos ts st recs gcs offs ts' st',
+  cells_to_oas cells pos ts st l = (recs, gcs, offs, ts', st') ->
+  Forall wcell_ok l -> Forall wf_gcell gcs -> forall m k, m_abs m = true ->
+  exists m' tg', steps ois m k recs m' (k_set_cells k (rev (map rcell_g gcs) ++ k_cells k) tg') /\ m_abs m' = true.
+Proof.
+  induction l as [|c t IH]; intros pos ts st recs gcs offs ts' st' E Hok Hg m k Ha.
+  - injection E as <- <- <- <- <-. exists m, (k_target k). split; [|exact Ha]. destruct k; constructor.
+  - cbn [cells_to_oas] in E.
+    destruct (cell_to_oas cells ts st c) as [[[r1 d1] ts1] st1] eqn:E1.
+    destruct (cells_to_oas cells (pos + reclen r1) ts1 st1 t) as [[[[r2 d2] o2] ts2] st2] eqn:E2.
+    injection E as <- <- <- <- <-. inversion Hok as [|? ? Hc Ht]; subst. inversion Hg as [|? ? Hg1 Hg2]; subst.
+    destruct (steps_cell ois cells ts st c r1 d1 ts1 st1 E1 Hc Hg1 m k Ha) as (m1 & tg1 & S1 & A1).
+    destruct (IH _ _ _ _ _ _ _ _ E2 Ht Hg2 m1 (k_set_cells k (rcell_g d1 :: k_cells k) tg1) A1) as (m2 & tg2 & S2 & A2).
+    exists m2, tg2. split; [|exact A2]. eapply steps_app; [exact S1|].
+    cbn [map rev]. rewrite <- app_assoc. cbn [app]. destruct k; exact S2.
+Qed.
+
+(* ================================================================== name records *)
+Ltac ds_simpl :=
+  cbn [DS d_modal d_unit d_lprops d_cells d_target d_cellnames d_cn_next d_cn_props d_textstrings d_ts_next d_propnames
+       d_pn_next d_propstrings d_ps_next d_table_mode k_unit k_lprops k_cells k_target k_cn k_cnn k_cnp k_ts k_tsn k_pn
+       k_pnn k_ps k_psn k_md obnd].
+Definition md0 (md : N * N * N * N) : N := let '(a, _, _, _) := md in a.
+Definition md1 (md : N * N * N * N) : N := let '(_, b, _, _) := md in b.
+Definition md2 (md : N * N * N * N) : N := let '(_, _, c, _) := md in c.
+Definition md3 (md : N * N * N * N) : N := let '(_, _, _, e) := md in e.
+
+Definition k_add_cn (k : core) (s : list N) : core :=
+  mkC (k_unit k) (k_lprops k) (k_cells k) (T_cellname (k_cnn k)) ((k_cnn k, s) :: k_cn k) (k_cnn k + 1) (k_cnp k)
+      (k_ts k) (k_tsn k) (k_pn k) (k_pnn k) (k_ps k) (k_psn k) (mode_set (k_md k) 0 1).
+Definition k_add_ts (k : core) (s : list N) (n : N) : core :=
+  mkC (k_unit k) (k_lprops k) (k_cells k) T_other (k_cn k) (k_cnn k) (k_cnp k)
+      ((n, s) :: k_ts k) (k_tsn k + 1) (k_pn k) (k_pnn k) (k_ps k) (k_psn k) (mode_set (k_md k) 1 2).
+Definition k_add_pn (k : core) (s : list N) (n : N) : core :=
+  mkC (k_unit k) (k_lprops k) (k_cells k) T_other (k_cn k) (k_cnn k) (k_cnp k)
+      (k_ts k) (k_tsn k) ((n, s) :: k_pn k) (k_pnn k + 1) (k_ps k) (k_psn k) (mode_set (k_md k) 2 2).
+Definition k_add_ps (k : core) (s : list N) : core :=
+  mkC (k_unit k) (k_lprops k) (k_cells k) T_other (k_cn k) (k_cnn k) (k_cnp k)
+      (k_ts k) (k_tsn k) (k_pn k) (k_pnn k) ((k_psn k, s) :: k_ps k) (k_psn k + 1) (mode_set (k_md k) 3 1).
+
+Lemma step_cellname ois m k s : wf_str s -> (md0 (k_md k) = 0 \/ md0 (k_md k) = 1) -> lookup (k_cn k) (k_cnn k) = None ->
+  steps ois m k [OasisRecord_CELLNAME_IMPLICIT :: wr_cstring s] m (k_add_cn k s).
+Proof.
+  intros Hs Hmd Hl. apply steps_one; [discriminate|]. intros rest.
+  unfold dec_record. change OasisRecord_CELLNAME_IMPLICIT with 3. cbn [app]. rewrite rd_uint_small by lia. cbn [obnd].
+  unfold add_name. change (wr_cstring s) with (wr_string s). rewrite rd_string_enc by exact Hs. cbn [obnd].
+  destruct k as [u lp cs tg cn cnn cnp ts tsn pn pnn ps psn [[[a b] c] e]]. cbn [DS d_table_mode mode_get k_md md0] in *.
+  cbn [k_cn k_cnn] in Hl.
+  replace (negb ((a =? 0) || (a =? 1))) with false by (destruct Hmd as [-> | ->]; reflexivity).
+  ds_simpl. rewrite Hl. reflexivity.
+Qed.
+
+Lemma step_textstring ois m k s n : wf_str s -> wf_u n -> (md1 (k_md k) = 0 \/ md1 (k_md k) = 2) -> lookup (k_ts k) n = None ->
+  steps ois m k [OasisRecord_TEXTSTRING :: wr_cstring s ++ enc_uint n] m (k_add_ts k s n).
+Proof.
+  intros Hs Hn Hmd Hl. apply steps_one; [discriminate|]. intros rest.
+  unfold dec_record. change OasisRecord_TEXTSTRING with 6. cbn [app]. rewrite rd_uint_small by lia. cbn [obnd].
+  unfold add_name. change (wr_cstring s) with (wr_string s). rewrite <- app_assoc. rewrite rd_string_enc by exact Hs. cbn [obnd].
+  destruct k as [u lp cs tg cn cnn cnp ts tsn pn pnn ps psn [[[a b] c] e]]. cbn [DS d_table_mode mode_get k_md md1] in *.
+  cbn [k_ts] in Hl.
+  replace (negb ((b =? 0) || (b =? 2))) with false by (destruct Hmd as [-> | ->]; reflexivity).
+  rewrite rd_uint_enc by exact Hn. ds_simpl. rewrite Hl. reflexivity.
+Qed.
+
+Lemma step_propname ois m k s n : wf_str s -> wf_u n -> (md2 (k_md k) = 0 \/ md2 (k_md k) = 2) -> lookup (k_pn k) n = None ->
+  steps ois m k [OasisRecord_PROPNAME :: wr_cstring s ++ enc_uint n] m (k_add_pn k s n).
+Proof.
+  intros Hs Hn Hmd Hl. apply steps_one; [discriminate|]. intros rest.
+  unfold dec_record. change OasisRecord_PROPNAME with 8. cbn [app]. rewrite rd_uint_small by lia. cbn [obnd].
+  unfold add_name. change (wr_cstring s) with (wr_string s). rewrite <- app_assoc. rewrite rd_string_enc by exact Hs. cbn [obnd].
+  destruct k as [u lp cs tg cn cnn cnp ts tsn pn pnn ps psn [[[a b] c] e]]. cbn [DS d_table_mode mode_get k_md md2] in *.
+  cbn [k_pn] in Hl.
+  replace (negb ((c =? 0) || (c =? 2))) with false by (destruct Hmd as [-> | ->]; reflexivity).
+  rewrite rd_uint_enc by exact Hn. ds_simpl. rewrite Hl. reflexivity.
+Qed.
+
+Lemma step_propstring ois m k s : wf_str s -> (md3 (k_md k) = 0 \/ md3 (k_md k) = 1) -> lookup (k_ps k) (k_psn k) = None ->
+  steps ois m k [OasisRecord_PROPSTRING_IMPLICIT :: wr_cstring s] m (k_add_ps k s).
+Proof.
+  intros Hs Hmd Hl. apply steps_one; [discriminate|]. intros rest.
+  unfold dec_record. change OasisRecord_PROPSTRING_IMPLICIT with 9. cbn [app]. rewrite rd_uint_small by lia. cbn [obnd].
+  unfold add_name. change (wr_cstring s) with (wr_string s). rewrite rd_string_enc by exact Hs. cbn [obnd].
+  destruct k as [u lp cs tg cn cnn cnp ts tsn pn pnn ps psn [[[a b] c] e]]. cbn [DS d_table_mode mode_get k_md md3] in *.
+  cbn [k_ps k_psn] in Hl.
+  replace (negb ((e =? 0) || (e =? 1))) with false by (destruct Hmd as [-> | ->]; reflexivity).
+  ds_simpl. rewrite Hl. reflexivity.
+Qed.
+
+(* ================================================================== END *)
+Lemma enc_uint_len2 v : 128 <= v -> v < 16384 -> length (enc_uint v) = 2%nat.
+Proof.
+  intros H1 H2. unfold enc_uint. rewrite enc_uint_f_unfold.
+  replace (128 <=? v) with true by (symmetry; apply N.leb_le; exact H1).
+  rewrite enc_uint_f_unfold.
+  replace (128 <=? v / 128) with false; [reflexivity|]. symmetry. apply N.leb_gt.
+  apply N.div_lt_upper_bound; lia.
+Qed.
+Lemma enc_uint_len10 v : wf_u v -> (1 <= length (enc_uint v) <= 10)%nat.
+Proof.
+  intros H. split; [apply nonempty_length; apply enc_uint_nonempty|].
+  apply (enc_uint_conforms_lemma v H).
+Qed.
+
+Lemma end_record_ok cn ts pn ps : wf_u cn -> wf_u ts -> wf_u pn -> wf_u ps ->
+  match end_record_w cn ts pn ps with
+  | code :: tail => code = 2 /\ end_ok false tail = true
+  | [] => False
+  end.
+Proof.
+  intros H1 H2 H3 H4. unfold end_record_w. split; [reflexivity|].
+  set (offsets := 1 :: enc_uint cn ++ 1 :: enc_uint ts ++ 1 :: enc_uint pn ++ 1 :: enc_uint ps ++ [1; 0; 1; 0]).
+  assert (HT : (12 <= length offsets <= 48)%nat).
+  { subst offsets. cbn [length]. repeat (rewrite app_length; cbn [length]). pose proof (enc_uint_len10 cn H1). pose proof (enc_uint_len10 ts H2). pose proof (enc_uint_len10 pn H3).
+    pose proof (enc_uint_len10 ps H4). lia. }
+  set (T := length offsets) in *.
+  assert (Hpad : usub 252 (N.of_nat T) = 252 - N.of_nat T) by (apply usub_ge; [lia|rewrite two64_val; lia]).
+  rewrite Hpad. set (pad := 252 - N.of_nat T).
+  assert (Hp1 : 128 <= pad) by (subst pad; lia). assert (Hp2 : pad < 16384) by (subst pad; lia).
+  unfold end_ok. apply andb_true_iff. split.
+  - apply Nat.eqb_eq. rewrite !app_length, repeat_length. rewrite (enc_uint_len2 pad Hp1 Hp2). cbn [length].
+    fold T. subst pad. lia.
+  - assert (Hoff : forall k, rd_count rd_uint 12 (offsets ++ k) =
+                             Some ([1; cn; 1; ts; 1; pn; 1; ps; 1; 0; 1; 0], k)).
+    { intros k. unfold rd_count.
+      replace (N.of_nat (length (offsets ++ k)) <? 12) with false
+        by (symmetry; apply N.ltb_ge; rewrite app_length; fold T; lia).
+      subst offsets. change (N.to_nat 12) with 12%nat. cbn [rd_n app].
+      rewrite rd_uint_small by lia. cbn [obnd]. rewrite <- !app_assoc.
+      rewrite rd_uint_enc by exact H1. cbn [obnd app].
+      rewrite rd_uint_small by lia. cbn [obnd]. rewrite <- !app_assoc.
+      rewrite rd_uint_enc by exact H2. cbn [obnd app].
+      rewrite rd_uint_small by lia. cbn [obnd]. rewrite <- !app_assoc.
+      rewrite rd_uint_enc by exact H3. cbn [obnd app].
+      rewrite rd_uint_small by lia. cbn [obnd]. rewrite <- !app_assoc.
+      rewrite rd_uint_enc by exact H4. cbn [obnd app].
+      rewrite rd_uint_small by lia. cbn [obnd]. rewrite rd_uint_small by lia. cbn [obnd].
+      rewrite rd_uint_small by lia. cbn [obnd]. rewrite rd_uint_small by lia. cbn [obnd]. reflexivity. }
+    rewrite Hoff.
+    assert (Hstr : enc_uint pad ++ repeat 0 (N.to_nat pad) ++ [0] = wr_string (repeat 0 (N.to_nat pad)) ++ [0]).
+    { unfold wr_string. rewrite repeat_length, N2Nat.id. rewrite <- app_assoc. reflexivity. }
+    rewrite Hstr. rewrite rd_string_enc.
+    + rewrite rd_uint_small by lia. reflexivity.
+    + unfold wf_str. rewrite repeat_length, N2Nat.id. rewrite two64_val. lia.
+Qed.
+
+(* ================================================================== interning: the hash maps against key lists *)
+Definition sInv (t : smap) : Prop := Inv (list N) N hash_str P_INITIAL P_THRESHOLD t.
+Definition sstored (t : smap) (k : list N) (v : N) : Prop := stored (list N) N t k v.
+
+(* [keys] = the keys in the order they were interned; the value of a key is its position *)
+Definition NR (m : names) (keys : list (list N)) : Prop :=
+  nm_fail m = false /\ sInv (nm_tab m) /\ NoDup keys /\
+  (forall k v, sstored (nm_tab m) k v <-> nth_error keys (N.to_nat v) = Some k).
+
+Fixpoint enum_from (s : nat) (keys : list (list N)) : list (list N * N) :=
+  match keys with [] => [] | k :: t => (k, N.of_nat s) :: enum_from (S s) t end.
+Lemma enum_from_in keys : forall s k v,
+  In (k, v) (enum_from s keys) <-> exists i, nth_error keys i = Some k /\ v = N.of_nat (s + i).
+Proof.
+  induction keys as [|a t IH]; intros s k v; cbn [enum_from In].
+  - split; [tauto|]. intros (i & H & _). destruct i; discriminate.
+  - rewrite IH. split.
+    + intros [E|(i & H1 & H2)].
+      * injection E as <- <-. exists 0%nat. split; [reflexivity|]. f_equal. lia.
+      * exists (S i). split; [exact H1|]. rewrite H2. f_equal. lia.
+    + intros ([|i] & H1 & H2).
+      * left. cbn in H1. injection H1 as <-. rewrite H2. f_equal. f_equal. lia.
+      * right. exists i. split; [exact H1|]. rewrite H2. f_equal. lia.
+Qed.
+Lemma enum_from_fst keys : forall s, map fst (enum_from s keys) = keys.
+Proof. induction keys as [|a t IH]; intros s; [reflexivity|]. cbn [enum_from map fst]. rewrite IH. reflexivity. Qed.
+Lemma enum_from_length keys : forall s, length (enum_from s keys) = length keys.
+Proof. induction keys as [|a t IH]; intros s; [reflexivity|]. cbn [enum_from length]. rewrite IH. reflexivity. Qed.
+
+Lemma NR_items m keys : NR m keys ->
+  NoDup (map fst (nm_items m)) /\ (forall k v, In (k, v) (nm_items m) <-> nth_error keys (N.to_nat v) = Some k) /\
+  Permutation (nm_items m) (enum_from 0 keys).
+Proof.
+  intros (_ & HI & Hnd & Hst). destruct HI as ((Hl & Hd & Hc) & Hcnt & _).
+  assert (H1 : NoDup (map fst (nm_items m))) by (apply (items_nodup (list N) N hash_str); assumption).
+  assert (H2 : forall k v, In (k, v) (nm_items m) <-> nth_error keys (N.to_nat v) = Some k).
+  { intros k v. unfold nm_items. rewrite <- (stored_items (list N) N hash_str) by exact Hl. apply Hst. }
+  split; [exact H1|]. split; [exact H2|].
+  apply NoDup_Permutation.
+  - apply (NoDup_map_inv fst). exact H1.
+  - apply (NoDup_map_inv fst). rewrite enum_from_fst. exact Hnd.
+  - intros [k v]. rewrite H2, enum_from_in. split.
+    + intros H. exists (N.to_nat v). split; [exact H|]. cbn [Nat.add]. rewrite N2Nat.id. reflexivity.
+    + intros (i & Hi & ->). cbn [Nat.add]. rewrite Nat2N.id. exact Hi.
+Qed.
+
+Lemma NR_count m keys : NR m keys -> Table.count (nm_tab m) = length keys.
+Proof.
+  intros H. destruct (NR_items m keys H) as (_ & _ & HP). destruct H as (_ & HI & _).
+  destruct HI as (_ & Hcnt & _). rewrite Hcnt. rewrite count_some_somes.
+  change (somes (list N) N (slots (nm_tab m))) with (nm_items m).
+  rewrite (Permutation_length HP). apply enum_from_length.
+Qed.
+
+Lemma NR_names0 : NR names0 [].
+Proof.
+  split; [reflexivity|]. split; [apply inv_table0|]. split; [constructor|].
+  intros k v. split.
+  - intros (i & Hi & _). cbn in Hi. lia.
+  - destruct (N.to_nat v); discriminate.
+Qed.
+
+Definition prefix {A} (a b : list A) : Prop := exists c, b = a ++ c.
+Lemma prefix_refl {A} (a : list A) : prefix a a. Proof. exists []. rewrite app_nil_r. reflexivity. Qed.
+Lemma prefix_trans {A} (a b c : list A) : prefix a b -> prefix b c -> prefix a c.
+Proof. intros [x ->] [y ->]. exists (x ++ y). rewrite app_assoc. reflexivity. Qed.
+Lemma prefix_nth {A} (a b : list A) i x : prefix a b -> nth_error a i = Some x -> nth_error b i = Some x.
+Proof.
+  intros [c ->] H. rewrite nth_error_app1; [exact H|]. apply nth_error_Some. congruence.
+Qed.
+Lemma prefix_length {A} (a b : list A) : prefix a b -> (length a <= length b)%nat.
+Proof. intros [c ->]. rewrite app_length. lia. Qed.
+
+Lemma NoDup_snoc {A} (l : list A) x : NoDup l -> ~ In x l -> NoDup (l ++ [x]).
+Proof.
+  intros H1 H2. apply (Permutation_NoDup (l := x :: l)); [apply Permutation_cons_append|]. constructor; assumption.
+Qed.
+
+Lemma intern_spec m keys k : NR m keys ->
+  exists keys', NR (snd (intern m k)) keys' /\ prefix keys keys' /\
+                nth_error keys' (N.to_nat (fst (intern m k))) = Some k.
+Proof.
+  intros HNR. pose proof HNR as (Hf & HI & Hnd & Hst).
+  unfold intern, s_has, s_get, s_set.
+  destruct (thas_ok (list N) N Table.bytes_eqb bytes_eqb_spec hash_str P_INITIAL P_THRESHOLD (nm_tab m) k HI) as (b & Hb & Hbs).
+  rewrite Hb. destruct b.
+  - destruct (tget_ok (list N) N Table.bytes_eqb bytes_eqb_spec hash_str P_INITIAL P_THRESHOLD (nm_tab m) k HI) as (o & Ho & Hos).
+    rewrite Ho. cbn [fst snd]. exists keys. split; [exact HNR|]. split; [apply prefix_refl|].
+    destruct (proj1 Hbs eq_refl) as (v & Hv). pose proof (proj2 (Hos v) Hv) as ->. cbn [smap_get_default].
+    apply Hst. exact Hv.
+  - assert (Hnot : forall v, ~ sstored (nm_tab m) k v).
+    { intros v Hv. assert (false = true) by (apply Hbs; exists v; exact Hv). discriminate. }
+    pose proof (NR_count m keys HNR) as Hcnt.
+    destruct (tset_ok (list N) N Table.bytes_eqb bytes_eqb_spec hash_str P_INITIAL P_GROWTH P_THRESHOLD 62 (nm_tab m) k
+                (N.of_nat (Table.count (nm_tab m))) current_constants_ok HI) as (t' & Ht' & HI' & Hst').
+    unfold tset, resize_depth. change 64%nat with (S (S 62)). rewrite Ht'. cbn [fst snd].
+    exists (keys ++ [k]). split; [|split; [exists [k]; reflexivity|]].
+    + split; [exact Hf|]. split; [exact HI'|]. split.
+      * apply NoDup_snoc.
+        -- exact Hnd.
+        -- intros Hin. apply In_nth_error in Hin. destruct Hin as (i & Hi).
+           apply (Hnot (N.of_nat i)). apply Hst. rewrite Nat2N.id. exact Hi.
+      * intros k' v'. cbn [nm_tab]. unfold sstored. rewrite Hst'. rewrite Hcnt. split.
+        -- intros [[-> ->]|[Hne Hs]].
+           ++ rewrite Nat2N.id. rewrite nth_error_app2 by lia. rewrite Nat.sub_diag. reflexivity.
+           ++ apply (prefix_nth keys); [exists [k]; reflexivity|]. apply Hst. exact Hs.
+        -- intros H. destruct (Nat.lt_ge_cases (N.to_nat v') (length keys)) as [Hlt|Hge].
+           ++ right. rewrite nth_error_app1 in H by exact Hlt. split.
+              ** intros ->. apply (Hnot v'). apply Hst. exact H.
+              ** apply Hst. exact H.
+           ++ left. rewrite nth_error_app2 in H by exact Hge.
+              destruct (N.to_nat v' - length keys)%nat as [|j] eqn:Ej; [|destruct j; discriminate].
+              cbn in H. injection H as <-. split; [reflexivity|]. lia.
+    + rewrite Hcnt, Nat2N.id. rewrite nth_error_app2 by lia. rewrite Nat.sub_diag. reflexivity.
+Qed.
+
+(* ================================================================== what the reference numbers point at *)
+(* KF = the property names, VF = the property strings, TF = the text strings, in reference-number order, as they will be
+   when the tables are written; a number handed out earlier keeps its meaning because the lists only grow *)
+Definition val_res (VF : list (list N)) (nv : pval) (v : value) : Prop :=
+  match v with
+  | VStr s => exists n, nv = PV_ref (str_code s) n /\ nth_error VF (N.to_nat n) = Some s
+  | _ => nv = view_value v
+  end.
+Definition prop_res (KF VF : list (list N)) (np : prop) (p : entry) : Prop :=
+  exists idx, p_name np = NNum idx /\ nth_error KF (N.to_nat idx) = Some (fst p) /\
+              p_std np = is_gds_property p /\ Forall2 (val_res VF) (p_vals np) (snd p).
+
+Lemma find_index_spec s : forall pv i,
+  i <= find_index s pv i <= i + N.of_nat (length pv) /\
+  (find_index s pv i < i + N.of_nat (length pv) -> nth_error pv (N.to_nat (find_index s pv i - i)) = Some s).
+Proof.
+  induction pv as [|x t IH]; intros i; cbn [find_index length].
+  - split; [lia|]. intros H. lia.
+  - destruct (Table.bytes_eqb x s) eqn:E.
+    + apply bytes_eqb_spec in E. subst x. split; [lia|]. intros _. rewrite N.sub_diag. reflexivity.
+    + destruct (IH (i + 1)) as [H1 H2]. split; [lia|]. intros H.
+      replace (N.to_nat (find_index s t (i + 1) - i)) with (S (N.to_nat (find_index s t (i + 1) - (i + 1)))) by lia.
+      cbn [nth_error]. apply H2. lia.
+Qed.
+
+Lemma value_to_oas_res pv v :
+  prefix pv (snd (value_to_oas pv v)) /\
+  forall VF, prefix (snd (value_to_oas pv v)) VF -> val_res VF (snd (fst (value_to_oas pv v))) v.
+Proof.
+  destruct v as [n|z|bits|s]; cbn [value_to_oas fst snd val_res view_value];
+    try (split; [apply prefix_refl|intros; reflexivity]).
+  destruct (find_index_spec s pv 0) as [[_ H1] H2]. rewrite N.add_0_l, N.sub_0_r in *.
+  destruct (find_index s pv 0 =? N.of_nat (length pv)) eqn:E.
+  - apply N.eqb_eq in E. split; [exists [s]; reflexivity|]. intros VF HP. eexists. split; [reflexivity|].
+    apply (prefix_nth _ _ _ _ HP). rewrite E, Nat2N.id. rewrite nth_error_app2 by lia. rewrite Nat.sub_diag. reflexivity.
+  - apply N.eqb_neq in E. split; [apply prefix_refl|]. intros VF HP. eexists. split; [reflexivity|].
+    apply (prefix_nth _ _ _ _ HP). apply H2. lia.
+Qed.
+
+Lemma val_res_mono VF VF' nv v : prefix VF VF' -> val_res VF nv v -> val_res VF' nv v.
+Proof.
+  intros HP. destruct v; cbn [val_res]; auto. intros (n & E & H). exists n. split; [exact E|]. apply (prefix_nth _ _ _ _ HP H).
+Qed.
+
+Lemma values_to_oas_res vs : forall pv,
+  prefix pv (snd (values_to_oas pv vs)) /\
+  forall VF, prefix (snd (values_to_oas pv vs)) VF -> Forall2 (val_res VF) (snd (fst (values_to_oas pv vs))) vs.
+Proof.
+  induction vs as [|v t IH]; intros pv; cbn [values_to_oas].
+  - split; [apply prefix_refl|]. intros; constructor.
+  - destruct (value_to_oas_res pv v) as [P1 R1]. destruct (value_to_oas pv v) as [[b1 d1] pv1]. cbn [fst snd] in *.
+    destruct (IH pv1) as [P2 R2]. destruct (values_to_oas pv1 t) as [[b2 d2] pv2]. cbn [fst snd] in *.
+    split; [eapply prefix_trans; eassumption|]. intros VF HP. constructor.
+    + apply R1. eapply prefix_trans; eassumption.
+    + apply R2. exact HP.
+Qed.
+
+(* the invariant of OasisState and how a writer function extends it *)
+Definition st_ext (st : pstate) (K : list (list N)) (st' : pstate) (K' : list (list N)) : Prop :=
+  NR (ps_names st') K' /\ prefix K K' /\ prefix (ps_vals st) (ps_vals st').
+Lemma st_ext_refl st K : NR (ps_names st) K -> st_ext st K st K.
+Proof. intros H. split; [exact H|]. split; apply prefix_refl. Qed.
+Lemma st_ext_trans st K st1 K1 st2 K2 : st_ext st K st1 K1 -> st_ext st1 K1 st2 K2 -> st_ext st K st2 K2.
+Proof.
+  intros (_ & A1 & B1) (N2 & A2 & B2). split; [exact N2|]. split; eapply prefix_trans; eassumption.
+Qed.
+
+Lemma property_to_oas_res st K p : NR (ps_names st) K ->
+  exists K', st_ext st K (snd (property_to_oas st p)) K' /\
+             forall KF VF, prefix K' KF -> prefix (ps_vals (snd (property_to_oas st p))) VF ->
+                           prop_res KF VF (snd (fst (property_to_oas st p))) p.
+Proof.
+  intros HNR. unfold property_to_oas.
+  destruct (intern_spec (ps_names st) K (fst p) HNR) as (K' & HN' & HP & Hidx).
+  destruct (intern (ps_names st) (fst p)) as [index nm]. cbn [fst snd] in *.
+  destruct (values_to_oas_res (snd p) (ps_vals st)) as [PV RV].
+  destruct (values_to_oas (ps_vals st) (snd p)) as [[vb vd] pv]. cbn [fst snd] in *.
+  exists K'. split; [split; [exact HN'|split; assumption]|].
+  intros KF VF HK HV. exists index. cbn [p_name p_std p_vals ps_vals] in *. split; [reflexivity|].
+  split; [apply (prefix_nth _ _ _ _ HK Hidx)|]. split; [reflexivity|]. apply RV. exact HV.
+Qed.
+
+Lemma Forall2_imp {A B} (P Q : A -> B -> Prop) l1 l2 :
+  (forall a b, P a b -> Q a b) -> Forall2 P l1 l2 -> Forall2 Q l1 l2.
+Proof. intros H. induction 1; constructor; auto. Qed.
+
+Lemma prop_res_mono KF VF KF' VF' np p : prefix KF KF' -> prefix VF VF' -> prop_res KF VF np p -> prop_res KF' VF' np p.
+Proof.
+  intros HK HV (idx & E & H1 & H2 & H3). exists idx. split; [exact E|]. split; [apply (prefix_nth _ _ _ _ HK H1)|].
+  split; [exact H2|]. eapply Forall2_imp; [|exact H3]. intros a b. apply val_res_mono. exact HV.
+Qed.
+
+Lemma properties_to_oas_res ps : forall st K, NR (ps_names st) K ->
+  exists K', st_ext st K (snd (properties_to_oas st ps)) K' /\
+             forall KF VF, prefix K' KF -> prefix (ps_vals (snd (properties_to_oas st ps))) VF ->
+                           Forall2 (prop_res KF VF) (snd (fst (properties_to_oas st ps))) ps.
+Proof.
+  induction ps as [|p t IH]; intros st K HNR; cbn [properties_to_oas].
+  - exists K. split; [apply st_ext_refl; exact HNR|]. intros; constructor.
+  - destruct (property_to_oas_res st K p HNR) as (K1 & E1 & R1).
+    destruct (property_to_oas st p) as [[r1 d1] st1]. cbn [fst snd] in *.
+    destruct (IH st1 K1 (proj1 E1)) as (K2 & E2 & R2).
+    destruct (properties_to_oas st1 t) as [[r2 d2] st2]. cbn [fst snd] in *.
+    exists K2. split; [eapply st_ext_trans; eassumption|]. intros KF VF HK HV. constructor.
+    + apply R1; [eapply prefix_trans; [apply E2|exact HK]|eapply prefix_trans; [apply E2|exact HV]].
+    + apply R2; assumption.
+Qed.
+
+(* ---- cell_name_map *)
+Lemma cif_some name : forall cells i found r, cell_index_from cells name i found = Some r ->
+  found = Some r \/ exists j, nth_error cells j = Some name /\ r = i + N.of_nat j.
+Proof.
+  induction cells as [|c t IH]; intros i found r H; cbn [cell_index_from] in H; [left; exact H|].
+  destruct (IH _ _ _ H) as [E|(j & Hj & ->)].
+  - destruct (Table.bytes_eqb c name) eqn:Eb; [|left; exact E].
+    apply bytes_eqb_spec in Eb. subst c. injection E as <-. right. exists 0%nat. split; [reflexivity|lia].
+  - right. exists (S j). split; [exact Hj|lia].
+Qed.
+Lemma cif_absent name : forall cells i found, ~ In name cells -> cell_index_from cells name i found = found.
+Proof.
+  induction cells as [|c t IH]; intros i found H; [reflexivity|]. cbn [cell_index_from].
+  destruct (Table.bytes_eqb c name) eqn:Eb.
+  - apply bytes_eqb_spec in Eb. subst c. exfalso. apply H. left. reflexivity.
+  - apply IH. intros Hin. apply H. right. exact Hin.
+Qed.
+Lemma cell_index_some cells name i : cell_index cells name = Some i -> nth_error cells (N.to_nat i) = Some name.
+Proof.
+  intros H. destruct (cif_some name cells 0 None i H) as [E|(j & Hj & ->)]; [discriminate|].
+  rewrite N.add_0_l, Nat2N.id. exact Hj.
+Qed.
+Lemma cell_index_nodup pre n post : NoDup (pre ++ n :: post) ->
+  cell_index (pre ++ n :: post) n = Some (N.of_nat (length pre)).
+Proof.
+  intros Hnd. unfold cell_index.
+  assert (G : forall pre i found, ~ In n pre -> ~ In n post ->
+              cell_index_from (pre ++ n :: post) n i found = Some (i + N.of_nat (length pre))).
+  { clear. induction pre as [|c t IH]; intros i found H1 H2.
+    - cbn [app cell_index_from length]. replace (Table.bytes_eqb n n) with true by (symmetry; apply bytes_eqb_spec; reflexivity).
+      rewrite cif_absent by exact H2. f_equal. lia.
+    - cbn [app cell_index_from length]. rewrite IH; [f_equal; lia| |exact H2]. intros Hin. apply H1. right. exact Hin. }
+  rewrite G; [reflexivity| |].
+  - intros Hin. apply NoDup_remove_2 in Hnd. apply Hnd. apply in_or_app. left. exact Hin.
+  - intros Hin. apply NoDup_remove_2 in Hnd. apply Hnd. apply in_or_app. right. exact Hin.
+Qed.
+
+(* ---- elements *)
+Definition elem_res (TF CN : list (list N)) (ge ev : element) : Prop :=
+  match ge with
+  | E_text (NNum i) l t x y r => exists s, nth_error TF (N.to_nat i) = Some s /\ ev = E_text (NName s) l t x y r
+  | E_place (NNum i) tr f x y r => exists s, nth_error CN (N.to_nat i) = Some s /\ ev = E_place (NName s) tr f x y r
+  | _ => ev = ge
+  end.
+Definition gep_res (KF VF TF CN : list (list N)) (gep : element * list prop) (vep : element * wprops) : Prop :=
+  elem_res TF CN (fst gep) (fst vep) /\ Forall2 (prop_res KF VF) (snd gep) (snd vep).
+
+(* the elements a cell denotes, their properties still as the writer holds them *)
+Definition pview_poly (p : wpoly) : element * wprops := (fst (view_poly p), py_props p).
+Definition pview_path_element (h : wpath) (el : wpel) : element * wprops := (fst (view_path_element h el), ph_props h).
+Definition pview_path (h : wpath) : list (element * wprops) :=
+  if (length (ph_pts h) <? 2)%nat then [] else map (pview_path_element h) (ph_els h).
+Definition pview_ref (r : wref) : element * wprops := (fst (view_ref r), rf_props r).
+Definition pview_label (t : wlabel) : element * wprops := (fst (view_label t), lb_props t).
+Definition pview_elems (c : wcell) : list (element * wprops) :=
+  map pview_poly (cl_polys c) ++ flat_map pview_path (cl_paths c) ++ map pview_ref (cl_refs c) ++
+  map pview_label (cl_labels c).
+Definition vp (ep : element * wprops) : element * list prop := (fst ep, view_props (snd ep)).
+
+Lemma polygon_to_oas_res CN st K p : NR (ps_names st) K ->
+  exists K', st_ext st K (snd (polygon_to_oas st p)) K' /\
+             forall KF VF TF, prefix K' KF -> prefix (ps_vals (snd (polygon_to_oas st p))) VF ->
+                              gep_res KF VF TF CN (snd (fst (polygon_to_oas st p))) (pview_poly p).
+Proof.
+  intros HNR. unfold polygon_to_oas. destruct (properties_to_oas_res (py_props p) st K HNR) as (K' & E & R).
+  destruct (properties_to_oas st (py_props p)) as [[pr pd] st1]. cbn [fst snd] in *.
+  exists K'. split; [exact E|]. intros KF VF TF HK HV. split; [reflexivity|].
+  apply R; assumption.
+Qed.
+
+Lemma path_element_to_oas_res CN st K h el : NR (ps_names st) K ->
+  exists K', st_ext st K (snd (path_element_to_oas st h el)) K' /\
+             forall KF VF TF, prefix K' KF -> prefix (ps_vals (snd (path_element_to_oas st h el))) VF ->
+                              gep_res KF VF TF CN (snd (fst (path_element_to_oas st h el))) (pview_path_element h el).
+Proof.
+  intros HNR. unfold path_element_to_oas. destruct (properties_to_oas_res (ph_props h) st K HNR) as (K' & E & R).
+  destruct (properties_to_oas st (ph_props h)) as [[pr pd] st1]. cbn [fst snd] in *.
+  exists K'. split; [exact E|]. intros KF VF TF HK HV. split; [reflexivity|].
+  apply R; assumption.
+Qed.
+
+Lemma gep_res_mono KF VF TF KF' VF' TF' CN g v :
+  prefix KF KF' -> prefix VF VF' -> prefix TF TF' -> gep_res KF VF TF CN g v -> gep_res KF' VF' TF' CN g v.
+Proof.
+  intros HK HV HT [H1 H2]. split.
+  - unfold elem_res in *. destruct (fst g) as [| | | | | |[s|i] ? ? ? ? ?|[s|i] ? ? ? ? ?]; auto.
+    destruct H1 as (s & Hs & Ev). exists s. split; [apply (prefix_nth _ _ _ _ HT Hs)|exact Ev].
+  - eapply Forall2_imp; [|exact H2]. intros a b. apply prop_res_mono; assumption.
+Qed.
+
+Lemma path_elements_to_oas_res CN h : forall els st K, NR (ps_names st) K ->
+  exists K', st_ext st K (snd (path_elements_to_oas st h els)) K' /\
+             forall KF VF TF, prefix K' KF -> prefix (ps_vals (snd (path_elements_to_oas st h els))) VF ->
+                              Forall2 (gep_res KF VF TF CN) (snd (fst (path_elements_to_oas st h els)))
+                                      (map (pview_path_element h) els).
+Proof.
+  induction els as [|el t IH]; intros st K HNR; cbn [path_elements_to_oas].
+  - exists K. split; [apply st_ext_refl; exact HNR|]. intros; constructor.
+  - destruct (path_element_to_oas_res CN st K h el HNR) as (K1 & E1 & R1).
+    destruct (path_element_to_oas st h el) as [[r1 d1] st1]. cbn [fst snd] in *.
+    destruct (IH st1 K1 (proj1 E1)) as (K2 & E2 & R2).
+    destruct (path_elements_to_oas st1 h t) as [[r2 d2] st2]. cbn [fst snd] in *.
+    exists K2. split; [eapply st_ext_trans; eassumption|]. intros KF VF TF HK HV. cbn [map]. constructor.
+    + apply R1; [eapply prefix_trans; [apply E2|exact HK]|eapply prefix_trans; [apply E2|exact HV]].
+    + apply R2; assumption.
+Qed.
+
+Lemma flexpath_to_oas_res CN st K h : NR (ps_names st) K ->
+  exists K', st_ext st K (snd (flexpath_to_oas st h)) K' /\
+             forall KF VF TF, prefix K' KF -> prefix (ps_vals (snd (flexpath_to_oas st h))) VF ->
+                              Forall2 (gep_res KF VF TF CN) (snd (fst (flexpath_to_oas st h))) (pview_path h).
+Proof.
+  intros HNR. unfold flexpath_to_oas, pview_path. destruct (length (ph_pts h) <? 2)%nat.
+  - exists K. split; [apply st_ext_refl; exact HNR|]. intros; constructor.
+  - apply path_elements_to_oas_res. exact HNR.
+Qed.
+
+Lemma reference_to_oas_res cells st K r : NR (ps_names st) K ->
+  exists K', st_ext st K (snd (reference_to_oas cells st r)) K' /\
+             forall KF VF TF, prefix K' KF -> prefix (ps_vals (snd (reference_to_oas cells st r))) VF ->
+                              gep_res KF VF TF cells (snd (fst (reference_to_oas cells st r))) (pview_ref r).
+Proof.
+  intros HNR. unfold reference_to_oas. destruct (properties_to_oas_res (rf_props r) st K HNR) as (K' & E & R).
+  destruct (properties_to_oas st (rf_props r)) as [[pr pd] st1]. cbn [fst snd] in *.
+  assert (Hel : forall tr, elem_res [] cells
+                  (E_place (match cell_index cells (rf_name r) with Some i => NNum i | None => NName (rf_name r) end)
+                           tr (rf_flip r) (rf_x r) (rf_y r) (view_rep (rf_rep r)))
+                  (E_place (NName (rf_name r)) tr (rf_flip r) (rf_x r) (rf_y r) (view_rep (rf_rep r)))).
+  { intros tr. cbn [elem_res]. destruct (cell_index cells (rf_name r)) as [i|] eqn:Ei; [|reflexivity].
+    exists (rf_name r). split; [apply cell_index_some; exact Ei|reflexivity]. }
+  assert (Hel' : forall TF tr, elem_res TF cells
+                  (E_place (match cell_index cells (rf_name r) with Some i => NNum i | None => NName (rf_name r) end)
+                           tr (rf_flip r) (rf_x r) (rf_y r) (view_rep (rf_rep r)))
+                  (E_place (NName (rf_name r)) tr (rf_flip r) (rf_x r) (rf_y r) (view_rep (rf_rep r)))).
+  { intros TF tr. specialize (Hel tr). cbn [elem_res] in *. destruct (cell_index cells (rf_name r)); exact Hel. }
+  unfold pview_ref, view_ref, view_trans.
+  destruct (if b64_is_one (rf_mag r) then rf_quarter r else None) as [q|]; cbn [fst snd].
+  - exists K'. split; [exact E|]. intros KF VF TF HK HV. split; [apply Hel'|]. apply R; assumption.
+  - exists K'. split; [exact E|]. intros KF VF TF HK HV. split.
+    + cbn [fst]. destruct (b64_is_one (rf_mag r)), (b64_is_zero (rf_rot r)); cbn [negb]; apply Hel'.
+    + apply R; assumption.
+Qed.
+
+Lemma label_to_oas_res CN ts T st K t : NR ts T -> NR (ps_names st) K ->
+  exists T' K', NR (snd (fst (label_to_oas ts st t))) T' /\ prefix T T' /\
+                st_ext st K (snd (label_to_oas ts st t)) K' /\
+                forall KF VF TF, prefix K' KF -> prefix (ps_vals (snd (label_to_oas ts st t))) VF -> prefix T' TF ->
+                                 gep_res KF VF TF CN (snd (fst (fst (label_to_oas ts st t)))) (pview_label t).
+Proof.
+  intros HT HNR. unfold label_to_oas.
+  destruct (intern_spec ts T (lb_text t) HT) as (T' & HT' & HPT & Hidx).
+  destruct (intern ts (lb_text t)) as [index ts1]. cbn [fst snd] in *.
+  destruct (properties_to_oas_res (lb_props t) st K HNR) as (K' & E & R).
+  destruct (properties_to_oas st (lb_props t)) as [[pr pd] st1]. cbn [fst snd] in *.
+  exists T', K'. split; [exact HT'|]. split; [exact HPT|]. split; [exact E|].
+  intros KF VF TF HK HV HTF. split.
+  - cbn [fst elem_res view_label pview_label]. exists (lb_text t). split; [apply (prefix_nth _ _ _ _ HTF Hidx)|reflexivity].
+  - apply R; assumption.
+Qed.
+
+Lemma Forall2_app_intro {A B} (P : A -> B -> Prop) a1 b1 a2 b2 :
+  Forall2 P a1 b1 -> Forall2 P a2 b2 -> Forall2 P (a1 ++ a2) (b1 ++ b2).
+Proof. induction 1; intros H2; [exact H2|]. cbn [app]. constructor; auto. Qed.
+
+Lemma polygons_to_oas_res CN : forall l st K, NR (ps_names st) K ->
+  exists K', st_ext st K (snd (polygons_to_oas st l)) K' /\
+             forall KF VF TF, prefix K' KF -> prefix (ps_vals (snd (polygons_to_oas st l))) VF ->
+                              Forall2 (gep_res KF VF TF CN) (snd (fst (polygons_to_oas st l))) (map pview_poly l).
+Proof.
+  induction l as [|p t IH]; intros st K HNR; cbn [polygons_to_oas].
+  - exists K. split; [apply st_ext_refl; exact HNR|]. intros; constructor.
+  - destruct (polygon_to_oas_res CN st K p HNR) as (K1 & E1 & R1).
+    destruct (polygon_to_oas st p) as [[r1 d1] st1]. cbn [fst snd] in *.
+    destruct (IH st1 K1 (proj1 E1)) as (K2 & E2 & R2).
+    destruct (polygons_to_oas st1 t) as [[r2 d2] st2]. cbn [fst snd] in *.
+    exists K2. split; [eapply st_ext_trans; eassumption|]. intros KF VF TF HK HV. cbn [map]. constructor.
+    + apply R1; [eapply prefix_trans; [apply E2|exact HK]|eapply prefix_trans; [apply E2|exact HV]].
+    + apply R2; assumption.
+Qed.
+Lemma flexpaths_to_oas_res CN : forall l st K, NR (ps_names st) K ->
+  exists K', st_ext st K (snd (flexpaths_to_oas st l)) K' /\
+             forall KF VF TF, prefix K' KF -> prefix (ps_vals (snd (flexpaths_to_oas st l))) VF ->
+                              Forall2 (gep_res KF VF TF CN) (snd (fst (flexpaths_to_oas st l))) (flat_map pview_path l).
+Proof.
+  induction l as [|p t IH]; intros st K HNR; cbn [flexpaths_to_oas].
+  - exists K. split; [apply st_ext_refl; exact HNR|]. intros; constructor.
+  - destruct (flexpath_to_oas_res CN st K p HNR) as (K1 & E1 & R1).
+    destruct (flexpath_to_oas st p) as [[r1 d1] st1]. cbn [fst snd] in *.
+    destruct (IH st1 K1 (proj1 E1)) as (K2 & E2 & R2).
+    destruct (flexpaths_to_oas st1 t) as [[r2 d2] st2]. cbn [fst snd] in *.
+    exists K2. split; [eapply st_ext_trans; eassumption|]. intros KF VF TF HK HV. cbn [flat_map]. apply Forall2_app_intro.
+    + apply R1; [eapply prefix_trans; [apply E2|exact HK]|eapply prefix_trans; [apply E2|exact HV]].
+    + apply R2; assumption.
+Qed.
+Lemma references_to_oas_res cells : forall l st K, NR (ps_names st) K ->
+  exists K', st_ext st K (snd (references_to_oas cells st l)) K' /\
+             forall KF VF TF, prefix K' KF -> prefix (ps_vals (snd (references_to_oas cells st l))) VF ->
+                              Forall2 (gep_res KF VF TF cells) (snd (fst (references_to_oas cells st l))) (map pview_ref l).
+Proof.
+  induction l as [|p t IH]; intros st K HNR; cbn [references_to_oas].
+  - exists K. split; [apply st_ext_refl; exact HNR|]. intros; constructor.
+  - destruct (reference_to_oas_res cells st K p HNR) as (K1 & E1 & R1).
+    destruct (reference_to_oas cells st p) as [[r1 d1] st1]. cbn [fst snd] in *.
+    destruct (IH st1 K1 (proj1 E1)) as (K2 & E2 & R2).
+    destruct (references_to_oas cells st1 t) as [[r2 d2] st2]. cbn [fst snd] in *.
+    exists K2. split; [eapply st_ext_trans; eassumption|]. intros KF VF TF HK HV. cbn [map]. constructor.
+    + apply R1; [eapply prefix_trans; [apply E2|exact HK]|eapply prefix_trans; [apply E2|exact HV]].
+    + apply R2; assumption.
+Qed.
+Lemma labels_to_oas_res CN : forall l ts T st K, NR ts T -> NR (ps_names st) K ->
+  exists T' K', NR (snd (fst (labels_to_oas ts st l))) T' /\ prefix T T' /\
+                st_ext st K (snd (labels_to_oas ts st l)) K' /\
+                forall KF VF TF, prefix K' KF -> prefix (ps_vals (snd (labels_to_oas ts st l))) VF -> prefix T' TF ->
+                                 Forall2 (gep_res KF VF TF CN) (snd (fst (fst (labels_to_oas ts st l)))) (map pview_label l).
+Proof.
+  induction l as [|p t IH]; intros ts T st K HT HNR; cbn [labels_to_oas].
+  - exists T, K. split; [exact HT|]. split; [apply prefix_refl|]. split; [apply st_ext_refl; exact HNR|]. intros; constructor.
+  - destruct (label_to_oas_res CN ts T st K p HT HNR) as (T1 & K1 & HT1 & PT1 & E1 & R1).
+    destruct (label_to_oas ts st p) as [[[r1 d1] ts1] st1]. cbn [fst snd] in *.
+    destruct (IH ts1 T1 st1 K1 HT1 (proj1 E1)) as (T2 & K2 & HT2 & PT2 & E2 & R2).
+    destruct (labels_to_oas ts1 st1 t) as [[[r2 d2] ts2] st2]. cbn [fst snd] in *.
+    exists T2, K2. split; [exact HT2|]. split; [eapply prefix_trans; eassumption|].
+    split; [eapply st_ext_trans; eassumption|]. intros KF VF TF HK HV HTF. cbn [map]. constructor.
+    + apply R1; [eapply prefix_trans; [apply E2|exact HK]|eapply prefix_trans; [apply E2|exact HV]|
+                 eapply prefix_trans; [exact PT2|exact HTF]].
+    + apply R2; assumption.
+Qed.
+
+(* ---- a cell *)
+Definition cell_res (KF VF TF CN : list (list N)) (i : N) (gc : cell) (c : wcell) : Prop :=
+  c_name gc = NNum i /\ c_props gc = [] /\
+  Forall2 (gep_res KF VF TF CN) (c_elems gc) (pview_elems c).
+
+Lemma cell_to_oas_res cells ts T st K c i : NR ts T -> NR (ps_names st) K -> cell_index cells (cl_name c) = Some i ->
+  exists T' K', NR (snd (fst (cell_to_oas cells ts st c))) T' /\ prefix T T' /\
+                st_ext st K (snd (cell_to_oas cells ts st c)) K' /\
+                forall KF VF TF, prefix K' KF -> prefix (ps_vals (snd (cell_to_oas cells ts st c))) VF -> prefix T' TF ->
+                                 cell_res KF VF TF cells i (snd (fst (fst (cell_to_oas cells ts st c)))) c.
+Proof.
+  intros HT HNR Hi. unfold cell_to_oas. rewrite Hi.
+  destruct (polygons_to_oas_res cells (cl_polys c) st K HNR) as (K1 & E1 & R1).
+  destruct (polygons_to_oas st (cl_polys c)) as [[r1 d1] st1]. cbn [fst snd] in *.
+  destruct (flexpaths_to_oas_res cells (cl_paths c) st1 K1 (proj1 E1)) as (K2 & E2 & R2).
+  destruct (flexpaths_to_oas st1 (cl_paths c)) as [[r2 d2] st2]. cbn [fst snd] in *.
+  destruct (references_to_oas_res cells (cl_refs c) st2 K2 (proj1 E2)) as (K3 & E3 & R3).
+  destruct (references_to_oas cells st2 (cl_refs c)) as [[r3 d3] st3]. cbn [fst snd] in *.
+  destruct (labels_to_oas_res cells (cl_labels c) ts T st3 K3 HT (proj1 E3)) as (T4 & K4 & HT4 & PT4 & E4 & R4).
+  destruct (labels_to_oas ts st3 (cl_labels c)) as [[[r4 d4] ts4] st4]. cbn [fst snd] in *.
+  exists T4, K4. split; [exact HT4|]. split; [exact PT4|].
+  split; [eapply st_ext_trans; [eapply st_ext_trans; [eapply st_ext_trans; [exact E1|exact E2]|exact E3]|exact E4]|].
+  intros KF VF TF HK HV HTF. split; [reflexivity|]. split; [reflexivity|]. cbn [c_elems]. unfold pview_elems.
+  destruct E2 as (_ & P2K & P2V), E3 as (_ & P3K & P3V), E4 as (_ & P4K & P4V).
+  repeat apply Forall2_app_intro.
+  - apply R1; [eapply prefix_trans; [exact P2K|]; eapply prefix_trans; [exact P3K|]; eapply prefix_trans; [exact P4K|exact HK]
+              |eapply prefix_trans; [exact P2V|]; eapply prefix_trans; [exact P3V|]; eapply prefix_trans; [exact P4V|exact HV]].
+  - apply R2; [eapply prefix_trans; [exact P3K|]; eapply prefix_trans; [exact P4K|exact HK]
+              |eapply prefix_trans; [exact P3V|]; eapply prefix_trans; [exact P4V|exact HV]].
+  - apply R3; [eapply prefix_trans; [exact P4K|exact HK]|eapply prefix_trans; [exact P4V|exact HV]].
+  - apply R4; assumption.
+Qed.
+
+Definition cells_res (KF VF TF CN : list (list N)) (gcs : list cell) (l : list wcell) : Prop :=
+  Forall2 (fun gc c => exists i, cell_index CN (cl_name c) = Some i /\ cell_res KF VF TF CN i gc c) gcs l.
+
+Lemma cells_to_oas_res cells : forall l pre pos ts T st K,
+  cells = pre ++ map cl_name l -> NoDup cells -> NR ts T -> NR (ps_names st) K ->
+  exists T' K', NR (snd (fst (cells_to_oas cells pos ts st l))) T' /\ prefix T T' /\
+                st_ext st K (snd (cells_to_oas cells pos ts st l)) K' /\
+                forall KF VF TF, prefix K' KF -> prefix (ps_vals (snd (cells_to_oas cells pos ts st l))) VF -> prefix T' TF ->
+                                 cells_res KF VF TF cells (snd (fst (fst (fst (cells_to_oas cells pos ts st l))))) l.
+Proof.
+  induction l as [|c t IH]; intros pre pos ts T st K Hc Hnd HT HNR; cbn [cells_to_oas].
+  - exists T, K. split; [exact HT|]. split; [apply prefix_refl|]. split; [apply st_ext_refl; exact HNR|]. intros; constructor.
+  - cbn [map] in Hc.
+    assert (Hi : cell_index cells (cl_name c) = Some (N.of_nat (length pre))).
+    { rewrite Hc. apply cell_index_nodup. rewrite <- Hc. exact Hnd. }
+    destruct (cell_to_oas_res cells ts T st K c _ HT HNR Hi) as (T1 & K1 & HT1 & PT1 & E1 & R1).
+    destruct (cell_to_oas cells ts st c) as [[[r1 d1] ts1] st1]. cbn [fst snd] in *.
+    destruct (IH (pre ++ [cl_name c]) (pos + reclen r1) ts1 T1 st1 K1) as (T2 & K2 & HT2 & PT2 & E2 & R2);
+      [rewrite <- app_assoc; exact Hc|exact Hnd|exact HT1|exact (proj1 E1)|].
+    destruct (cells_to_oas cells (pos + reclen r1) ts1 st1 t) as [[[[r2 d2] o2] ts2] st2]. cbn [fst snd] in *.
+    exists T2, K2. split; [exact HT2|]. split; [eapply prefix_trans; eassumption|].
+    split; [eapply st_ext_trans; eassumption|]. intros KF VF TF HK HV HTF. constructor.
+    + exists (N.of_nat (length pre)). split; [exact Hi|].
+      apply R1; [eapply prefix_trans; [apply E2|exact HK]|eapply prefix_trans; [apply E2|exact HV]|
+                 eapply prefix_trans; [exact PT2|exact HTF]].
+    + apply R2; assumption.
+Qed.
+
+Lemma cellnames_to_oas_res cfg cells offs : forall l st K, NR (ps_names st) K ->
+  exists K', st_ext st K (snd (cellnames_to_oas cfg cells offs st l)) K' /\
+             forall KF VF, prefix K' KF -> prefix (ps_vals (snd (cellnames_to_oas cfg cells offs st l))) VF ->
+                           Forall2 (fun pd c => Forall2 (prop_res KF VF) pd
+                                                        (cellname_props cfg c (cell_offset_of cells offs (cl_name c))))
+                                   (snd (fst (cellnames_to_oas cfg cells offs st l))) l.
+Proof.
+  induction l as [|c t IH]; intros st K HNR; cbn [cellnames_to_oas].
+  - exists K. split; [apply st_ext_refl; exact HNR|]. intros; constructor.
+  - destruct (properties_to_oas_res (cellname_props cfg c (cell_offset_of cells offs (cl_name c))) st K HNR) as (K1 & E1 & R1).
+    destruct (properties_to_oas st (cellname_props cfg c (cell_offset_of cells offs (cl_name c)))) as [[pr pd] st1].
+    cbn [fst snd] in *.
+    destruct (IH st1 K1 (proj1 E1)) as (K2 & E2 & R2).
+    destruct (cellnames_to_oas cfg cells offs st1 t) as [[r2 d2] st2]. cbn [fst snd] in *.
+    exists K2. split; [eapply st_ext_trans; eassumption|]. intros KF VF HK HV. constructor.
+    + apply R1; [eapply prefix_trans; [apply E2|exact HK]|eapply prefix_trans; [apply E2|exact HV]].
+    + apply R2; assumption.
+Qed.
+
+(* ================================================================== well-formedness of what is written *)
+Definition wval_ok (v : value) : Prop :=
+  match v with VUInt n => wf_u n | VInt z => fits63 z | VReal _ => True | VStr s => wf_str s end.
+Definition wprop_ok (p : entry) : Prop :=
+  wf_str (fst p) /\ wf_u (N.of_nat (length (snd p))) /\ Forall wval_ok (snd p).
+Definition wprops_ok (ps : wprops) : Prop := Forall wprop_ok ps.
+Definition len_ok {A} (l : list A) : Prop := N.of_nat (length l) < two64.
+
+Lemma nth_error_wf {A} (l : list A) (i : N) x : len_ok l -> nth_error l (N.to_nat i) = Some x -> wf_u i.
+Proof.
+  intros H E. assert (N.to_nat i < length l)%nat by (apply nth_error_Some; congruence). unfold len_ok, wf_u in *. lia.
+Qed.
+
+Lemma str_code_cases s : str_code s = 13 \/ str_code s = 14 \/ str_code s = 15.
+Proof. unfold str_code. destruct (is_binary s); [tauto|]. destruct (has_space s); tauto. Qed.
+
+Lemma val_res_wf VF nv v : val_res VF nv v -> wval_ok v -> len_ok VF -> wf_pval nv.
+Proof.
+  intros H Hok HL. destruct v as [n|z|bits|s]; cbn [val_res wval_ok view_value] in *.
+  - subst nv. exact Hok.
+  - subst nv. exact Hok.
+  - subst nv. apply wf_real_of_bits.
+  - destruct H as (n & -> & Hn). cbn [wf_pval]. split; [apply str_code_cases|]. apply (nth_error_wf VF n s HL Hn).
+Qed.
+
+Lemma Forall2_length_eq {A B} (P : A -> B -> Prop) l1 l2 : Forall2 P l1 l2 -> length l1 = length l2.
+Proof. induction 1; cbn [length]; congruence. Qed.
+
+Lemma prop_res_wf KF VF np p : prop_res KF VF np p -> wprop_ok p -> len_ok KF -> len_ok VF -> wf_nprop np.
+Proof.
+  intros (idx & En & Hk & _ & Hv) (_ & Hc & Hvals) HLK HLV. split; [|split].
+  - exists idx. split; [exact En|]. apply (nth_error_wf KF idx _ HLK Hk).
+  - rewrite (Forall2_length_eq _ _ _ Hv). exact Hc.
+  - clear Hc. revert Hvals. induction Hv as [|nv v nvs vs H1 H2 IH]; intros Hvals; [constructor|].
+    inversion Hvals as [|? ? Hv1 Hv2]; subst. constructor; [apply (val_res_wf VF nv v H1 Hv1 HLV)|apply IH; exact Hv2].
+Qed.
+
+Lemma props_res_wf KF VF nps ps : Forall2 (prop_res KF VF) nps ps -> wprops_ok ps -> len_ok KF -> len_ok VF -> Forall wf_nprop nps.
+Proof.
+  intros H Hok HLK HLV. revert Hok. induction H as [|np p nps ps H1 H2 IH]; intros Hok; [constructor|].
+  inversion Hok as [|? ? Hp Ht]; subst. constructor; [apply (prop_res_wf KF VF np p H1 Hp HLK HLV)|apply IH; exact Ht].
+Qed.
+
+Lemma gep_res_wf KF VF TF CN gep vep :
+  gep_res KF VF TF CN gep vep -> wprops_ok (snd vep) -> len_ok KF -> len_ok VF -> len_ok TF -> len_ok CN -> wf_gep gep.
+Proof.
+  intros [H1 H2] Hok HLK HLV HLT HLC. split; [|apply (props_res_wf KF VF _ _ H2 Hok HLK HLV)].
+  unfold elem_res in H1. unfold wf_gelem. destruct (fst gep) as [| | | | | |[s|i] ? ? ? ? ?|[s|i] ? ? ? ? ?]; auto.
+  - destruct H1 as (s & Hs & _). apply (nth_error_wf TF i s HLT Hs).
+  - destruct H1 as (s & Hs & _). apply (nth_error_wf CN i s HLC Hs).
+Qed.
+
+(* ================================================================== resolution at END *)
+Definition agrees (tab : table) (keys : list (list N)) : Prop :=
+  forall i s, nth_error keys i = Some s -> lookup tab (N.of_nat i) = Some s.
+
+Lemma str_kind_code s : str_code s - 3 = str_kind s.
+Proof. unfold str_code, str_kind. destruct (is_binary s); [reflexivity|]. destruct (has_space s); reflexivity. Qed.
+
+Lemma vals_res_resolve PS VF nvs vs : agrees PS VF -> Forall2 (val_res VF) nvs vs ->
+  omap (resolve_pval PS) nvs = Some (map view_value vs).
+Proof.
+  intros Ha H. induction H as [|nv v nvs vs H1 H2 IH]; [reflexivity|].
+  cbn [omap map]. rewrite IH.
+  assert (E : resolve_pval PS nv = Some (view_value v)).
+  { destruct v as [n|z|bits|s]; cbn [val_res view_value] in H1; try (subst nv; reflexivity).
+    destruct H1 as (n & -> & Hn). cbn [resolve_pval]. specialize (Ha _ _ Hn). rewrite N2Nat.id in Ha. rewrite Ha.
+    rewrite str_kind_code. reflexivity. }
+  rewrite E. reflexivity.
+Qed.
+
+Lemma prop_res_resolve PN PS KF VF np p : agrees PN KF -> agrees PS VF -> prop_res KF VF np p ->
+  resolve_prop PN PS np = Some (view_prop p).
+Proof.
+  intros HaK HaV (idx & En & Hk & Hs & Hv). unfold resolve_prop. rewrite En. cbn [resolve_nref].
+  specialize (HaK _ _ Hk). rewrite N2Nat.id in HaK. rewrite HaK. cbn [obnd].
+  rewrite (vals_res_resolve PS VF _ _ HaV Hv). cbn [obnd]. rewrite Hs. reflexivity.
+Qed.
+
+Lemma props_res_resolve PN PS KF VF nps ps : agrees PN KF -> agrees PS VF -> Forall2 (prop_res KF VF) nps ps ->
+  omap (resolve_prop PN PS) nps = Some (view_props ps).
+Proof.
+  intros HaK HaV H. induction H as [|np p nps ps H1 H2 IH]; [reflexivity|].
+  cbn [omap]. rewrite (prop_res_resolve PN PS KF VF np p HaK HaV H1). cbn [obnd]. rewrite IH. reflexivity.
+Qed.
+
+Lemma gep_res_resolve CNt TSt PN PS KF VF TF CN gep vep :
+  agrees CNt CN -> agrees TSt TF -> agrees PN KF -> agrees PS VF -> gep_res KF VF TF CN gep vep ->
+  resolve_elem CNt TSt (fst gep) = Some (fst vep) /\ omap (resolve_prop PN PS) (snd gep) = Some (view_props (snd vep)).
+Proof.
+  intros HaC HaT HaK HaV [H1 H2]. split; [|apply (props_res_resolve PN PS KF VF _ _ HaK HaV H2)].
+  unfold elem_res in H1. destruct (fst gep) as [| | | | | |[s|i] ? ? ? ? ?|[s|i] ? ? ? ? ?]; try (rewrite H1; reflexivity).
+  - destruct H1 as (s & Hs & ->). cbn [resolve_elem resolve_nref]. specialize (HaT _ _ Hs). rewrite N2Nat.id in HaT.
+    rewrite HaT. reflexivity.
+  - destruct H1 as (s & Hs & ->). cbn [resolve_elem resolve_nref]. specialize (HaC _ _ Hs). rewrite N2Nat.id in HaC.
+    rewrite HaC. reflexivity.
+Qed.
